@@ -6,30 +6,30 @@ package main
 func init() {
 	// symbol definition: flags are or-ed into an existing symbol, a second DefParam for the same name is a SyntaxError (duplicate argument), parameters are appended to Varnames in order, a global declaration is mirrored into the module table [symtable.c symtable_add_def]  []
 	pathSpec["symtable|SymTable.AddDef"] = []string{
-		"[!(has(st.Global.Symbols[mangled])) && !(has(st.Symbols[mangled])) && bits(flags,0,1) != 0 && bits(flags,0,4) == 0] st.Symbols[mangled] = composite[0,flags,ret:node.GetLineno(),ret:node.GetColOffset()]; st.Global.Symbols[mangled] = composite[0,flags,ret:node.GetLineno(),ret:node.GetColOffset()]",
-		"[!(has(st.Global.Symbols[mangled])) && bits(flags,0,1) != 0 && bits(flags,0,4) == 0 && has(st.Symbols[mangled])] sym.Flags |= flags; st.Symbols[mangled] = st.Symbols[name]; st.Global.Symbols[mangled] = composite[0,flags,ret:node.GetLineno(),ret:node.GetColOffset()]",
-		"[!(has(st.Symbols[mangled])) && bits(flags,0,1) != 0 && bits(flags,0,4) == 0 && has(st.Global.Symbols[mangled])] st.Symbols[mangled] = composite[0,flags,ret:node.GetLineno(),ret:node.GetColOffset()]; sym.Flags |= flags; st.Global.Symbols[mangled] = st.Global.Symbols[name]",
-		"[!(has(st.Symbols[mangled])) && bits(flags,0,1) == 0 && bits(flags,0,4) == 0] st.Symbols[mangled] = composite[0,flags,ret:node.GetLineno(),ret:node.GetColOffset()]",
-		"[!(has(st.Symbols[mangled])) && bits(flags,0,4) != 0] st.Symbols[mangled] = composite[0,flags,ret:node.GetLineno(),ret:node.GetColOffset()]; st.Varnames = append(st.Varnames, name)",
-		"[bits(flags,0,1) != 0 && bits(flags,0,4) == 0 && has(st.Global.Symbols[mangled]) && has(st.Symbols[mangled])] sym.Flags |= flags; st.Symbols[mangled] = st.Symbols[name]; sym.Flags |= flags; st.Global.Symbols[mangled] = st.Global.Symbols[name]",
-		"[bits(flags,0,1) == 0 && bits(flags,0,4) == 0 && has(st.Symbols[mangled])] sym.Flags |= flags; st.Symbols[mangled] = st.Symbols[name]",
-		"[bits(flags,0,4) != 0 && bits(st.Symbols[name].Flags,0,4) != 0 && has(st.Symbols[mangled])]  -> raise",
-		"[bits(flags,0,4) != 0 && bits(st.Symbols[name].Flags,0,4) == 0 && has(st.Symbols[mangled])] sym.Flags |= flags; st.Symbols[mangled] = st.Symbols[name]; st.Varnames = append(st.Varnames, name)",
+		"[!(has(recv.Global.Symbols[string(p2)])) && !(has(recv.Symbols[string(p2)])) && bits(p3,0,1) != 0 && bits(p3,0,4) == 0] recv.Symbols[string(p2)] = composite[0,p3,ret:p1.GetLineno(),ret:p1.GetColOffset()]; recv.Global.Symbols[string(p2)] = composite[0,p3,ret:p1.GetLineno(),ret:p1.GetColOffset()]",
+		"[!(has(recv.Global.Symbols[string(p2)])) && bits(p3,0,1) != 0 && bits(p3,0,4) == 0 && has(recv.Symbols[string(p2)])] sym.Flags |= p3; recv.Symbols[string(p2)] = st.Symbols[p2]; recv.Global.Symbols[string(p2)] = composite[0,p3,ret:p1.GetLineno(),ret:p1.GetColOffset()]",
+		"[!(has(recv.Symbols[string(p2)])) && bits(p3,0,1) != 0 && bits(p3,0,4) == 0 && has(recv.Global.Symbols[string(p2)])] recv.Symbols[string(p2)] = composite[0,p3,ret:p1.GetLineno(),ret:p1.GetColOffset()]; sym.Flags |= p3; recv.Global.Symbols[string(p2)] = st.Global.Symbols[p2]",
+		"[!(has(recv.Symbols[string(p2)])) && bits(p3,0,1) == 0 && bits(p3,0,4) == 0] recv.Symbols[string(p2)] = composite[0,p3,ret:p1.GetLineno(),ret:p1.GetColOffset()]",
+		"[!(has(recv.Symbols[string(p2)])) && bits(p3,0,4) != 0] recv.Symbols[string(p2)] = composite[0,p3,ret:p1.GetLineno(),ret:p1.GetColOffset()]; recv.Varnames = append(st.Varnames, p2)",
+		"[bits(p3,0,1) != 0 && bits(p3,0,4) == 0 && has(recv.Global.Symbols[string(p2)]) && has(recv.Symbols[string(p2)])] sym.Flags |= p3; recv.Symbols[string(p2)] = st.Symbols[p2]; sym.Flags |= p3; recv.Global.Symbols[string(p2)] = st.Global.Symbols[p2]",
+		"[bits(p3,0,1) == 0 && bits(p3,0,4) == 0 && has(recv.Symbols[string(p2)])] sym.Flags |= p3; recv.Symbols[string(p2)] = st.Symbols[p2]",
+		"[bits(p3,0,4) != 0 && bits(st.Symbols[p2].Flags,0,4) != 0 && has(recv.Symbols[string(p2)])]  -> raise",
+		"[bits(p3,0,4) != 0 && bits(st.Symbols[p2].Flags,0,4) == 0 && has(recv.Symbols[string(p2)])] sym.Flags |= p3; recv.Symbols[string(p2)] = st.Symbols[p2]; recv.Varnames = append(st.Varnames, p2)",
 	}
 	// a function read through an instance binds the instance; read through the class it stays a function  []
 	pathSpec["py|Function.M__get__"] = []string{
-		"[instance != None]  -> composite[instance,f], nil",
-		"[instance == None]  -> f, nil",
+		"[p1 != None]  -> composite[p1,f], nil",
+		"[p1 == None]  -> f, nil",
 	}
 	// a built-in method read through an instance binds the instance; read through the class it stays unbound  []
 	pathSpec["py|Method.M__get__"] = []string{
-		"[instance != None]  -> composite[instance,m], nil",
-		"[instance == None]  -> m, nil",
+		"[p1 != None]  -> composite[p1,m], nil",
+		"[p1 == None]  -> m, nil",
 	}
 	// a classmethod binds the owner class (the type of the instance when no owner is given), never the instance  []
 	pathSpec["py|ClassMethod.M__get__"] = []string{
-		"[owner != nil]  -> composite[owner,c.Callable], nil",
-		"[owner == nil] instance.Type() -> composite[(py.Object).Type#0,c.Callable], nil",
+		"[p2 != nil]  -> composite[p2,c.Callable], nil",
+		"[p2 == nil] p1.Type() -> composite[(py.Object).Type#0,c.Callable], nil",
 	}
 	// a staticmethod binds nothing: the plain callable is returned  []
 	pathSpec["py|StaticMethod.M__get__"] = []string{
@@ -37,127 +37,127 @@ func init() {
 	}
 	// line-at-a-time driver: in continuation mode a non-empty line is only buffered; an empty line (or any line outside continuation mode) compiles buffer+line; an incomplete-input error buffers the line and enters continuation mode; any other outcome leaves continuation mode and clears the buffer before reporting or running  []
 	pathSpec["repl|REPL.Run"] = []string{
-		"[!(py.IsException(py.SystemExit, err)) && !(r.continuation) && err == nil && toCompile != \"\"] vm.PrintExpr = r.term.Print; defer(func() { vm.PrintExpr = oldPrintExpr }()); Compile(toCompile + \"\\n\", r.prog, py.SingleMode, 0, true); r.continuation = false; r.term.SetPrompt(NormalPrompt); r.previous = \"\"; r.Context.RunCode(dyn:py.Compile#0, r.Module.Globals, r.Module.Globals, nil); TracebackDump(err!) -> nil",
-		"[!(py.IsException(py.SystemExit, err)) && err == nil && line == \"\" && r.continuation && toCompile != \"\"] vm.PrintExpr = r.term.Print; defer(func() { vm.PrintExpr = oldPrintExpr }()); Compile(toCompile + \"\\n\", r.prog, py.SingleMode, 0, true); r.continuation = false; r.term.SetPrompt(NormalPrompt); r.previous = \"\"; r.Context.RunCode(dyn:py.Compile#0, r.Module.Globals, r.Module.Globals, nil); TracebackDump(err!) -> nil",
-		"[!(r.continuation) && !(strings.Contains(errText, \"EOF while scanning triple-quoted string literal\")) && !(strings.Contains(errText, \"unexpected EOF while parsing\")) && err != nil && toCompile != \"\"] vm.PrintExpr = r.term.Print; defer(func() { vm.PrintExpr = oldPrintExpr }()); Compile(toCompile + \"\\n\", r.prog, py.SingleMode, 0, true); r.continuation = false; r.term.SetPrompt(NormalPrompt); r.previous = \"\"; r.term.Print(fmt.Sprintf#0) -> nil",
-		"[!(r.continuation) && !(strings.Contains(errText, \"unexpected EOF while parsing\")) && err != nil && len(strings.TrimSpace#0) != 0 && strings.Contains(errText, \"EOF while scanning triple-quoted string literal\") && strings.TrimSpace#0[0] != 35 && toCompile != \"\"] vm.PrintExpr = r.term.Print; defer(func() { vm.PrintExpr = oldPrintExpr }()); Compile(toCompile + \"\\n\", r.prog, py.SingleMode, 0, true); r.continuation = true; r.previous += string(line) + \"\\n\"; r.term.SetPrompt(ContinuationPrompt) -> nil",
-		"[!(r.continuation) && !(strings.Contains(errText, \"unexpected EOF while parsing\")) && err != nil && len(strings.TrimSpace#0) != 0 && strings.Contains(errText, \"EOF while scanning triple-quoted string literal\") && strings.TrimSpace#0[0] == 35 && toCompile != \"\"] vm.PrintExpr = r.term.Print; defer(func() { vm.PrintExpr = oldPrintExpr }()); Compile(toCompile + \"\\n\", r.prog, py.SingleMode, 0, true) -> nil",
-		"[!(r.continuation) && !(strings.Contains(errText, \"unexpected EOF while parsing\")) && err != nil && len(strings.TrimSpace#0) == 0 && strings.Contains(errText, \"EOF while scanning triple-quoted string literal\") && toCompile != \"\"] vm.PrintExpr = r.term.Print; defer(func() { vm.PrintExpr = oldPrintExpr }()); Compile(toCompile + \"\\n\", r.prog, py.SingleMode, 0, true); r.continuation = true; r.previous += string(line) + \"\\n\"; r.term.SetPrompt(ContinuationPrompt) -> nil",
-		"[!(r.continuation) && err != nil && len(strings.TrimSpace#0) != 0 && strings.Contains(errText, \"unexpected EOF while parsing\") && strings.TrimSpace#0[0] != 35 && toCompile != \"\"] vm.PrintExpr = r.term.Print; defer(func() { vm.PrintExpr = oldPrintExpr }()); Compile(toCompile + \"\\n\", r.prog, py.SingleMode, 0, true); r.continuation = true; r.previous += string(line) + \"\\n\"; r.term.SetPrompt(ContinuationPrompt) -> nil",
-		"[!(r.continuation) && err != nil && len(strings.TrimSpace#0) != 0 && strings.Contains(errText, \"unexpected EOF while parsing\") && strings.TrimSpace#0[0] == 35 && toCompile != \"\"] vm.PrintExpr = r.term.Print; defer(func() { vm.PrintExpr = oldPrintExpr }()); Compile(toCompile + \"\\n\", r.prog, py.SingleMode, 0, true) -> nil",
-		"[!(r.continuation) && err != nil && len(strings.TrimSpace#0) == 0 && strings.Contains(errText, \"unexpected EOF while parsing\") && toCompile != \"\"] vm.PrintExpr = r.term.Print; defer(func() { vm.PrintExpr = oldPrintExpr }()); Compile(toCompile + \"\\n\", r.prog, py.SingleMode, 0, true); r.continuation = true; r.previous += string(line) + \"\\n\"; r.term.SetPrompt(ContinuationPrompt) -> nil",
-		"[!(r.continuation) && err == nil && py.IsException(py.SystemExit, err) && toCompile != \"\"] vm.PrintExpr = r.term.Print; defer(func() { vm.PrintExpr = oldPrintExpr }()); Compile(toCompile + \"\\n\", r.prog, py.SingleMode, 0, true); r.continuation = false; r.term.SetPrompt(NormalPrompt); r.previous = \"\"; r.Context.RunCode(dyn:py.Compile#0, r.Module.Globals, r.Module.Globals, nil) -> err!",
-		"[!(r.continuation) && err == nil && toCompile != \"\"] vm.PrintExpr = r.term.Print; defer(func() { vm.PrintExpr = oldPrintExpr }()); Compile(toCompile + \"\\n\", r.prog, py.SingleMode, 0, true); r.continuation = false; r.term.SetPrompt(NormalPrompt); r.previous = \"\"; r.Context.RunCode(dyn:py.Compile#0, r.Module.Globals, r.Module.Globals, nil) -> nil",
-		"[!(r.continuation) && toCompile == \"\"] vm.PrintExpr = r.term.Print; defer(func() { vm.PrintExpr = oldPrintExpr }()) -> nil",
-		"[!(strings.Contains(errText, \"EOF while scanning triple-quoted string literal\")) && !(strings.Contains(errText, \"unexpected EOF while parsing\")) && err != nil && line == \"\" && r.continuation && toCompile != \"\"] vm.PrintExpr = r.term.Print; defer(func() { vm.PrintExpr = oldPrintExpr }()); Compile(toCompile + \"\\n\", r.prog, py.SingleMode, 0, true); r.continuation = false; r.term.SetPrompt(NormalPrompt); r.previous = \"\"; r.term.Print(fmt.Sprintf#0) -> nil",
-		"[!(strings.Contains(errText, \"unexpected EOF while parsing\")) && err != nil && len(strings.TrimSpace#0) != 0 && line == \"\" && r.continuation && strings.Contains(errText, \"EOF while scanning triple-quoted string literal\") && strings.TrimSpace#0[0] != 35 && toCompile != \"\"] vm.PrintExpr = r.term.Print; defer(func() { vm.PrintExpr = oldPrintExpr }()); Compile(toCompile + \"\\n\", r.prog, py.SingleMode, 0, true); r.continuation = true; r.previous += string(line) + \"\\n\"; r.term.SetPrompt(ContinuationPrompt) -> nil",
-		"[!(strings.Contains(errText, \"unexpected EOF while parsing\")) && err != nil && len(strings.TrimSpace#0) != 0 && line == \"\" && r.continuation && strings.Contains(errText, \"EOF while scanning triple-quoted string literal\") && strings.TrimSpace#0[0] == 35 && toCompile != \"\"] vm.PrintExpr = r.term.Print; defer(func() { vm.PrintExpr = oldPrintExpr }()); Compile(toCompile + \"\\n\", r.prog, py.SingleMode, 0, true) -> nil",
-		"[!(strings.Contains(errText, \"unexpected EOF while parsing\")) && err != nil && len(strings.TrimSpace#0) == 0 && line == \"\" && r.continuation && strings.Contains(errText, \"EOF while scanning triple-quoted string literal\") && toCompile != \"\"] vm.PrintExpr = r.term.Print; defer(func() { vm.PrintExpr = oldPrintExpr }()); Compile(toCompile + \"\\n\", r.prog, py.SingleMode, 0, true); r.continuation = true; r.previous += string(line) + \"\\n\"; r.term.SetPrompt(ContinuationPrompt) -> nil",
-		"[err != nil && len(strings.TrimSpace#0) != 0 && line == \"\" && r.continuation && strings.Contains(errText, \"unexpected EOF while parsing\") && strings.TrimSpace#0[0] != 35 && toCompile != \"\"] vm.PrintExpr = r.term.Print; defer(func() { vm.PrintExpr = oldPrintExpr }()); Compile(toCompile + \"\\n\", r.prog, py.SingleMode, 0, true); r.continuation = true; r.previous += string(line) + \"\\n\"; r.term.SetPrompt(ContinuationPrompt) -> nil",
-		"[err != nil && len(strings.TrimSpace#0) != 0 && line == \"\" && r.continuation && strings.Contains(errText, \"unexpected EOF while parsing\") && strings.TrimSpace#0[0] == 35 && toCompile != \"\"] vm.PrintExpr = r.term.Print; defer(func() { vm.PrintExpr = oldPrintExpr }()); Compile(toCompile + \"\\n\", r.prog, py.SingleMode, 0, true) -> nil",
-		"[err != nil && len(strings.TrimSpace#0) == 0 && line == \"\" && r.continuation && strings.Contains(errText, \"unexpected EOF while parsing\") && toCompile != \"\"] vm.PrintExpr = r.term.Print; defer(func() { vm.PrintExpr = oldPrintExpr }()); Compile(toCompile + \"\\n\", r.prog, py.SingleMode, 0, true); r.continuation = true; r.previous += string(line) + \"\\n\"; r.term.SetPrompt(ContinuationPrompt) -> nil",
-		"[err == nil && line == \"\" && py.IsException(py.SystemExit, err) && r.continuation && toCompile != \"\"] vm.PrintExpr = r.term.Print; defer(func() { vm.PrintExpr = oldPrintExpr }()); Compile(toCompile + \"\\n\", r.prog, py.SingleMode, 0, true); r.continuation = false; r.term.SetPrompt(NormalPrompt); r.previous = \"\"; r.Context.RunCode(dyn:py.Compile#0, r.Module.Globals, r.Module.Globals, nil) -> err!",
-		"[err == nil && line == \"\" && r.continuation && toCompile != \"\"] vm.PrintExpr = r.term.Print; defer(func() { vm.PrintExpr = oldPrintExpr }()); Compile(toCompile + \"\\n\", r.prog, py.SingleMode, 0, true); r.continuation = false; r.term.SetPrompt(NormalPrompt); r.previous = \"\"; r.Context.RunCode(dyn:py.Compile#0, r.Module.Globals, r.Module.Globals, nil) -> nil",
-		"[line != \"\" && r.continuation] vm.PrintExpr = r.term.Print; defer(func() { vm.PrintExpr = oldPrintExpr }()); r.previous += string(line) + \"\\n\" -> nil",
-		"[line == \"\" && r.continuation && toCompile == \"\"] vm.PrintExpr = r.term.Print; defer(func() { vm.PrintExpr = oldPrintExpr }()) -> nil",
+		"[!(py.IsException(py.SystemExit, err!)) && !(recv.continuation) && err == nil && toCompile != \"\"] vm.PrintExpr = r.term.Print; defer(func() { vm.PrintExpr = oldPrintExpr }()); Compile(toCompile + \"\\n\", r.prog, py.SingleMode, 0, true); recv.continuation = false; r.term.SetPrompt(NormalPrompt); recv.previous = \"\"; r.Context.RunCode(dyn:py.Compile#0, r.Module.Globals, r.Module.Globals, nil); TracebackDump(err!) -> nil",
+		"[!(py.IsException(py.SystemExit, err!)) && err == nil && p1 == \"\" && recv.continuation && toCompile != \"\"] vm.PrintExpr = r.term.Print; defer(func() { vm.PrintExpr = oldPrintExpr }()); Compile(toCompile + \"\\n\", r.prog, py.SingleMode, 0, true); recv.continuation = false; r.term.SetPrompt(NormalPrompt); recv.previous = \"\"; r.Context.RunCode(dyn:py.Compile#0, r.Module.Globals, r.Module.Globals, nil); TracebackDump(err!) -> nil",
+		"[!(recv.continuation) && !(strings.Contains((.error).Error#0, \"unexpected EOF while parsing\")) && !(strings.Contains((.error).Error#0, lit)) && err != nil && toCompile != \"\"] vm.PrintExpr = r.term.Print; defer(func() { vm.PrintExpr = oldPrintExpr }()); Compile(toCompile + \"\\n\", r.prog, py.SingleMode, 0, true); recv.continuation = false; r.term.SetPrompt(NormalPrompt); recv.previous = \"\"; r.term.Print(fmt.Sprintf#0) -> nil",
+		"[!(recv.continuation) && !(strings.Contains((.error).Error#0, \"unexpected EOF while parsing\")) && err != nil && len(strings.TrimSpace#0) != 0 && strings.Contains((.error).Error#0, lit) && strings.TrimSpace#0[0] != 35 && toCompile != \"\"] vm.PrintExpr = r.term.Print; defer(func() { vm.PrintExpr = oldPrintExpr }()); Compile(toCompile + \"\\n\", r.prog, py.SingleMode, 0, true); recv.continuation = true; r.previous += string(p1) + \"\\n\"; r.term.SetPrompt(ContinuationPrompt) -> nil",
+		"[!(recv.continuation) && !(strings.Contains((.error).Error#0, \"unexpected EOF while parsing\")) && err != nil && len(strings.TrimSpace#0) != 0 && strings.Contains((.error).Error#0, lit) && strings.TrimSpace#0[0] == 35 && toCompile != \"\"] vm.PrintExpr = r.term.Print; defer(func() { vm.PrintExpr = oldPrintExpr }()); Compile(toCompile + \"\\n\", r.prog, py.SingleMode, 0, true) -> nil",
+		"[!(recv.continuation) && !(strings.Contains((.error).Error#0, \"unexpected EOF while parsing\")) && err != nil && len(strings.TrimSpace#0) == 0 && strings.Contains((.error).Error#0, lit) && toCompile != \"\"] vm.PrintExpr = r.term.Print; defer(func() { vm.PrintExpr = oldPrintExpr }()); Compile(toCompile + \"\\n\", r.prog, py.SingleMode, 0, true); recv.continuation = true; r.previous += string(p1) + \"\\n\"; r.term.SetPrompt(ContinuationPrompt) -> nil",
+		"[!(recv.continuation) && err != nil && len(strings.TrimSpace#0) != 0 && strings.Contains((.error).Error#0, \"unexpected EOF while parsing\") && strings.TrimSpace#0[0] != 35 && toCompile != \"\"] vm.PrintExpr = r.term.Print; defer(func() { vm.PrintExpr = oldPrintExpr }()); Compile(toCompile + \"\\n\", r.prog, py.SingleMode, 0, true); recv.continuation = true; r.previous += string(p1) + \"\\n\"; r.term.SetPrompt(ContinuationPrompt) -> nil",
+		"[!(recv.continuation) && err != nil && len(strings.TrimSpace#0) != 0 && strings.Contains((.error).Error#0, \"unexpected EOF while parsing\") && strings.TrimSpace#0[0] == 35 && toCompile != \"\"] vm.PrintExpr = r.term.Print; defer(func() { vm.PrintExpr = oldPrintExpr }()); Compile(toCompile + \"\\n\", r.prog, py.SingleMode, 0, true) -> nil",
+		"[!(recv.continuation) && err != nil && len(strings.TrimSpace#0) == 0 && strings.Contains((.error).Error#0, \"unexpected EOF while parsing\") && toCompile != \"\"] vm.PrintExpr = r.term.Print; defer(func() { vm.PrintExpr = oldPrintExpr }()); Compile(toCompile + \"\\n\", r.prog, py.SingleMode, 0, true); recv.continuation = true; r.previous += string(p1) + \"\\n\"; r.term.SetPrompt(ContinuationPrompt) -> nil",
+		"[!(recv.continuation) && err == nil && py.IsException(py.SystemExit, err!) && toCompile != \"\"] vm.PrintExpr = r.term.Print; defer(func() { vm.PrintExpr = oldPrintExpr }()); Compile(toCompile + \"\\n\", r.prog, py.SingleMode, 0, true); recv.continuation = false; r.term.SetPrompt(NormalPrompt); recv.previous = \"\"; r.Context.RunCode(dyn:py.Compile#0, r.Module.Globals, r.Module.Globals, nil) -> err!",
+		"[!(recv.continuation) && err == nil && toCompile != \"\"] vm.PrintExpr = r.term.Print; defer(func() { vm.PrintExpr = oldPrintExpr }()); Compile(toCompile + \"\\n\", r.prog, py.SingleMode, 0, true); recv.continuation = false; r.term.SetPrompt(NormalPrompt); recv.previous = \"\"; r.Context.RunCode(dyn:py.Compile#0, r.Module.Globals, r.Module.Globals, nil) -> nil",
+		"[!(recv.continuation) && toCompile == \"\"] vm.PrintExpr = r.term.Print; defer(func() { vm.PrintExpr = oldPrintExpr }()) -> nil",
+		"[!(strings.Contains((.error).Error#0, \"unexpected EOF while parsing\")) && !(strings.Contains((.error).Error#0, lit)) && err != nil && p1 == \"\" && recv.continuation && toCompile != \"\"] vm.PrintExpr = r.term.Print; defer(func() { vm.PrintExpr = oldPrintExpr }()); Compile(toCompile + \"\\n\", r.prog, py.SingleMode, 0, true); recv.continuation = false; r.term.SetPrompt(NormalPrompt); recv.previous = \"\"; r.term.Print(fmt.Sprintf#0) -> nil",
+		"[!(strings.Contains((.error).Error#0, \"unexpected EOF while parsing\")) && err != nil && len(strings.TrimSpace#0) != 0 && p1 == \"\" && recv.continuation && strings.Contains((.error).Error#0, lit) && strings.TrimSpace#0[0] != 35 && toCompile != \"\"] vm.PrintExpr = r.term.Print; defer(func() { vm.PrintExpr = oldPrintExpr }()); Compile(toCompile + \"\\n\", r.prog, py.SingleMode, 0, true); recv.continuation = true; r.previous += string(p1) + \"\\n\"; r.term.SetPrompt(ContinuationPrompt) -> nil",
+		"[!(strings.Contains((.error).Error#0, \"unexpected EOF while parsing\")) && err != nil && len(strings.TrimSpace#0) != 0 && p1 == \"\" && recv.continuation && strings.Contains((.error).Error#0, lit) && strings.TrimSpace#0[0] == 35 && toCompile != \"\"] vm.PrintExpr = r.term.Print; defer(func() { vm.PrintExpr = oldPrintExpr }()); Compile(toCompile + \"\\n\", r.prog, py.SingleMode, 0, true) -> nil",
+		"[!(strings.Contains((.error).Error#0, \"unexpected EOF while parsing\")) && err != nil && len(strings.TrimSpace#0) == 0 && p1 == \"\" && recv.continuation && strings.Contains((.error).Error#0, lit) && toCompile != \"\"] vm.PrintExpr = r.term.Print; defer(func() { vm.PrintExpr = oldPrintExpr }()); Compile(toCompile + \"\\n\", r.prog, py.SingleMode, 0, true); recv.continuation = true; r.previous += string(p1) + \"\\n\"; r.term.SetPrompt(ContinuationPrompt) -> nil",
+		"[err != nil && len(strings.TrimSpace#0) != 0 && p1 == \"\" && recv.continuation && strings.Contains((.error).Error#0, \"unexpected EOF while parsing\") && strings.TrimSpace#0[0] != 35 && toCompile != \"\"] vm.PrintExpr = r.term.Print; defer(func() { vm.PrintExpr = oldPrintExpr }()); Compile(toCompile + \"\\n\", r.prog, py.SingleMode, 0, true); recv.continuation = true; r.previous += string(p1) + \"\\n\"; r.term.SetPrompt(ContinuationPrompt) -> nil",
+		"[err != nil && len(strings.TrimSpace#0) != 0 && p1 == \"\" && recv.continuation && strings.Contains((.error).Error#0, \"unexpected EOF while parsing\") && strings.TrimSpace#0[0] == 35 && toCompile != \"\"] vm.PrintExpr = r.term.Print; defer(func() { vm.PrintExpr = oldPrintExpr }()); Compile(toCompile + \"\\n\", r.prog, py.SingleMode, 0, true) -> nil",
+		"[err != nil && len(strings.TrimSpace#0) == 0 && p1 == \"\" && recv.continuation && strings.Contains((.error).Error#0, \"unexpected EOF while parsing\") && toCompile != \"\"] vm.PrintExpr = r.term.Print; defer(func() { vm.PrintExpr = oldPrintExpr }()); Compile(toCompile + \"\\n\", r.prog, py.SingleMode, 0, true); recv.continuation = true; r.previous += string(p1) + \"\\n\"; r.term.SetPrompt(ContinuationPrompt) -> nil",
+		"[err == nil && p1 == \"\" && py.IsException(py.SystemExit, err!) && recv.continuation && toCompile != \"\"] vm.PrintExpr = r.term.Print; defer(func() { vm.PrintExpr = oldPrintExpr }()); Compile(toCompile + \"\\n\", r.prog, py.SingleMode, 0, true); recv.continuation = false; r.term.SetPrompt(NormalPrompt); recv.previous = \"\"; r.Context.RunCode(dyn:py.Compile#0, r.Module.Globals, r.Module.Globals, nil) -> err!",
+		"[err == nil && p1 == \"\" && recv.continuation && toCompile != \"\"] vm.PrintExpr = r.term.Print; defer(func() { vm.PrintExpr = oldPrintExpr }()); Compile(toCompile + \"\\n\", r.prog, py.SingleMode, 0, true); recv.continuation = false; r.term.SetPrompt(NormalPrompt); recv.previous = \"\"; r.Context.RunCode(dyn:py.Compile#0, r.Module.Globals, r.Module.Globals, nil) -> nil",
+		"[p1 != \"\" && recv.continuation] vm.PrintExpr = r.term.Print; defer(func() { vm.PrintExpr = oldPrintExpr }()); r.previous += string(p1) + \"\\n\" -> nil",
+		"[p1 == \"\" && recv.continuation && toCompile == \"\"] vm.PrintExpr = r.term.Print; defer(func() { vm.PrintExpr = oldPrintExpr }()) -> nil",
 	}
 	// block analysis order: for a class block the sets handed to children are copied from bound/global BEFORE the block's own names are analysed (class bindings, including a `global` in the class body, are not visible in methods); for other blocks after; children are analysed on those sets; cells computed for function blocks, __class__ dropped for class blocks; symbols updated; free propagated [symtable.c analyze_block]  []
 	pathSpec["symtable|SymTable.AnalyzeBlock"] = []string{
-		"[st.Type != ClassBlock && st.Type != FunctionBlock] LOOP(range st.Symbols){[] st.AnalyzeName(make#2, idx(st.Symbols), st.Symbols[*], bound, make#1, free, global) }; make#5.Update(bound); make#3.Update(global); LOOP(range st.Children){[!(entry.ChildFree) && !(entry.Free)] st.Children[*].AnalyzeChildBlock(make#5, make#4, make#3, make#6)  | [!(entry.Free) && entry.ChildFree] st.Children[*].AnalyzeChildBlock(make#5, make#4, make#3, make#6)  | [entry.Free] st.Children[*].AnalyzeChildBlock(make#5, make#4, make#3, make#6) }; make#4.Update(make#6); st.Symbols.Update(make#2, bound, make#4, st.Type == ClassBlock); free.Update(make#4)",
-		"[st.Type == ClassBlock] make#3.Update(global); make#5.Update(bound); LOOP(range st.Symbols){[] st.AnalyzeName(make#2, idx(st.Symbols), st.Symbols[*], bound, make#1, free, global) }; make#5.Add(\"__class__\"); LOOP(range st.Children){[!(entry.ChildFree) && !(entry.Free)] st.Children[*].AnalyzeChildBlock(make#5, make#4, make#3, make#6)  | [!(entry.Free) && entry.ChildFree] st.Children[*].AnalyzeChildBlock(make#5, make#4, make#3, make#6)  | [entry.Free] st.Children[*].AnalyzeChildBlock(make#5, make#4, make#3, make#6) }; make#4.Update(make#6); st.DropClassFree(make#4); st.Symbols.Update(make#2, bound, make#4, st.Type == ClassBlock); free.Update(make#4)",
-		"[st.Type == FunctionBlock] LOOP(range st.Symbols){[] st.AnalyzeName(make#2, idx(st.Symbols), st.Symbols[*], bound, make#1, free, global) }; make#5.Update(make#1); make#5.Update(bound); make#3.Update(global); LOOP(range st.Children){[!(entry.ChildFree) && !(entry.Free)] st.Children[*].AnalyzeChildBlock(make#5, make#4, make#3, make#6)  | [!(entry.Free) && entry.ChildFree] st.Children[*].AnalyzeChildBlock(make#5, make#4, make#3, make#6)  | [entry.Free] st.Children[*].AnalyzeChildBlock(make#5, make#4, make#3, make#6) }; make#4.Update(make#6); AnalyzeCells(make#2, make#4); st.Symbols.Update(make#2, bound, make#4, st.Type == ClassBlock); free.Update(make#4)",
+		"[st.Type != ClassBlock && st.Type != FunctionBlock] LOOP(range recv.Symbols){[] st.AnalyzeName(make#2, idx(st.Symbols), st.Symbols[*], p1, make#1, p2, p3) }; make#5.Update(p1); make#3.Update(p3); LOOP(range recv.Children){[!(entry.ChildFree) && !(entry.Free)] st.Children[*].AnalyzeChildBlock(make#5, make#4, make#3, make#6)  | [!(entry.Free) && entry.ChildFree] st.Children[*].AnalyzeChildBlock(make#5, make#4, make#3, make#6)  | [entry.Free] st.Children[*].AnalyzeChildBlock(make#5, make#4, make#3, make#6) }; make#4.Update(make#6); st.Symbols.Update(make#2, p1, make#4, recv.Type == ClassBlock); p2.Update(make#4)",
+		"[st.Type == ClassBlock] make#3.Update(p3); make#5.Update(p1); LOOP(range recv.Symbols){[] st.AnalyzeName(make#2, idx(st.Symbols), st.Symbols[*], p1, make#1, p2, p3) }; make#5.Add(\"__class__\"); LOOP(range recv.Children){[!(entry.ChildFree) && !(entry.Free)] st.Children[*].AnalyzeChildBlock(make#5, make#4, make#3, make#6)  | [!(entry.Free) && entry.ChildFree] st.Children[*].AnalyzeChildBlock(make#5, make#4, make#3, make#6)  | [entry.Free] st.Children[*].AnalyzeChildBlock(make#5, make#4, make#3, make#6) }; make#4.Update(make#6); st.DropClassFree(make#4); st.Symbols.Update(make#2, p1, make#4, recv.Type == ClassBlock); p2.Update(make#4)",
+		"[st.Type == FunctionBlock] LOOP(range recv.Symbols){[] st.AnalyzeName(make#2, idx(st.Symbols), st.Symbols[*], p1, make#1, p2, p3) }; make#5.Update(make#1); make#5.Update(p1); make#3.Update(p3); LOOP(range recv.Children){[!(entry.ChildFree) && !(entry.Free)] st.Children[*].AnalyzeChildBlock(make#5, make#4, make#3, make#6)  | [!(entry.Free) && entry.ChildFree] st.Children[*].AnalyzeChildBlock(make#5, make#4, make#3, make#6)  | [entry.Free] st.Children[*].AnalyzeChildBlock(make#5, make#4, make#3, make#6) }; make#4.Update(make#6); AnalyzeCells(make#2, make#4); st.Symbols.Update(make#2, p1, make#4, recv.Type == ClassBlock); p2.Update(make#4)",
 	}
 	// sequence unpacking (UNPACK_SEQUENCE / UNPACK_EX): the first argcnt items are stored downwards from the top so that the leftmost target is popped first; the starred list takes the rest; the after-star items are taken from the end of that list in the same downward order [ceval.c unpack_iterable]  []
 	pathSpec["vm|unpack_iterable"] = []string{
-		"[!(py.IsException(py.StopIteration, err)) && argcntafter == -1 && err == nil] Iter(v); LOOP(for k1 = 0; k1 < argcnt; k1++){[!(py.IsException(py.StopIteration, err)) && err != nil] Next(py.Iter#0); IsException(py.StopIteration, err!) return | [err != nil && py.IsException(py.StopIteration, err)] Next(py.Iter#0); IsException(py.StopIteration, err!); ExceptionNewf(py.ValueError, \"need more than %d value(s) to unpack\", loop:k1) return | [err == nil] Next(py.Iter#0) }; Next(py.Iter#0); IsException(py.StopIteration, err!) -> err!",
-		"[!(py.IsException(py.StopIteration, err)) && err == nil] Iter(v); Next(py.Iter#0); IsException(py.StopIteration, err!) -> err!",
-		"[argcntafter != -1 && argcntafter - len(l.Items) <= 0 && err == nil] Iter(v); LOOP(for k1 = 0; k1 < argcnt; k1++){[!(py.IsException(py.StopIteration, err)) && err != nil] Next(py.Iter#0); IsException(py.StopIteration, err!) return | [err != nil && py.IsException(py.StopIteration, err)] Next(py.Iter#0); IsException(py.StopIteration, err!); ExceptionNewf(py.ValueError, \"need more than %d value(s) to unpack\", loop:k1) return | [err == nil] Next(py.Iter#0) }; SequenceList(py.Iter#0); py.SequenceList#0.Len(); LOOP(for k1 = argcntafter; k1 > 0; k1--){[err != nil] py.SequenceList#0.M__getitem__(len(l.Items) - loop:k1) return | [err == nil] py.SequenceList#0.M__getitem__(len(l.Items) - loop:k1) }; py.SequenceList#0.Resize(-argcntafter + len(l.Items)) -> nil",
-		"[argcntafter != -1 && argcntafter - len(l.Items) <= 0 && err == nil] Iter(v); LOOP(for k1 = 0; k1 < argcnt; k1++){[!(py.IsException(py.StopIteration, err)) && err != nil] Next(py.Iter#0); IsException(py.StopIteration, err!) return | [err != nil && py.IsException(py.StopIteration, err)] Next(py.Iter#0); IsException(py.StopIteration, err!); ExceptionNewf(py.ValueError, \"need more than %d value(s) to unpack\", loop:k1) return | [err == nil] Next(py.Iter#0) }; SequenceList(py.Iter#0); py.SequenceList#0.Len(); py.SequenceList#0.M__getitem__(len(l.Items) - loop:k1) -> err!",
-		"[argcntafter != -1 && argcntafter - len(l.Items) >= 1 && err == nil] Iter(v); LOOP(for k1 = 0; k1 < argcnt; k1++){[!(py.IsException(py.StopIteration, err)) && err != nil] Next(py.Iter#0); IsException(py.StopIteration, err!) return | [err != nil && py.IsException(py.StopIteration, err)] Next(py.Iter#0); IsException(py.StopIteration, err!); ExceptionNewf(py.ValueError, \"need more than %d value(s) to unpack\", loop:k1) return | [err == nil] Next(py.Iter#0) }; SequenceList(py.Iter#0); py.SequenceList#0.Len(); ExceptionNewf(py.ValueError, \"need more than %d values to unpack\", argcnt + len(l.Items)) -> err!",
-		"[argcntafter != -1 && err == nil] Iter(v); LOOP(for k1 = 0; k1 < argcnt; k1++){[!(py.IsException(py.StopIteration, err)) && err != nil] Next(py.Iter#0); IsException(py.StopIteration, err!) return | [err != nil && py.IsException(py.StopIteration, err)] Next(py.Iter#0); IsException(py.StopIteration, err!); ExceptionNewf(py.ValueError, \"need more than %d value(s) to unpack\", loop:k1) return | [err == nil] Next(py.Iter#0) }; SequenceList(py.Iter#0) -> err!",
-		"[argcntafter == -1 && err == nil && py.IsException(py.StopIteration, err)] Iter(v); LOOP(for k1 = 0; k1 < argcnt; k1++){[!(py.IsException(py.StopIteration, err)) && err != nil] Next(py.Iter#0); IsException(py.StopIteration, err!) return | [err != nil && py.IsException(py.StopIteration, err)] Next(py.Iter#0); IsException(py.StopIteration, err!); ExceptionNewf(py.ValueError, \"need more than %d value(s) to unpack\", loop:k1) return | [err == nil] Next(py.Iter#0) }; Next(py.Iter#0); IsException(py.StopIteration, err!) -> nil",
-		"[argcntafter == -1 && err == nil] Iter(v); LOOP(for k1 = 0; k1 < argcnt; k1++){[!(py.IsException(py.StopIteration, err)) && err != nil] Next(py.Iter#0); IsException(py.StopIteration, err!) return | [err != nil && py.IsException(py.StopIteration, err)] Next(py.Iter#0); IsException(py.StopIteration, err!); ExceptionNewf(py.ValueError, \"need more than %d value(s) to unpack\", loop:k1) return | [err == nil] Next(py.Iter#0) }; Next(py.Iter#0); ExceptionNewf(py.ValueError, \"too many values to unpack (expected %d)\", argcnt) -> err!",
-		"[err != nil] Iter(v) -> err!",
-		"[err == nil && py.IsException(py.StopIteration, err)] Iter(v); Next(py.Iter#0); IsException(py.StopIteration, err!); ExceptionNewf(py.ValueError, \"need more than %d value(s) to unpack\", loop:k1) -> err!",
+		"[!(py.IsException(py.StopIteration, err!)) && err == nil && p4 == -1] Iter(p2); LOOP(for k1 = 0; k1 < p3; k1++){[!(py.IsException(py.StopIteration, err!)) && err != nil] Next(py.Iter#0); IsException(py.StopIteration, err!) return | [err != nil && py.IsException(py.StopIteration, err!)] Next(py.Iter#0); IsException(py.StopIteration, err!); ExceptionNewf(py.ValueError, \"need more than %d value(s) to unpack\", loop:k1) return | [err == nil] Next(py.Iter#0) }; Next(py.Iter#0); IsException(py.StopIteration, err!) -> err!",
+		"[!(py.IsException(py.StopIteration, err!)) && err == nil] Iter(p2); Next(py.Iter#0); IsException(py.StopIteration, err!) -> err!",
+		"[err != nil] Iter(p2) -> err!",
+		"[err == nil && len(l.Items) - p4 <= -1 && p4 != -1] Iter(p2); LOOP(for k1 = 0; k1 < p3; k1++){[!(py.IsException(py.StopIteration, err!)) && err != nil] Next(py.Iter#0); IsException(py.StopIteration, err!) return | [err != nil && py.IsException(py.StopIteration, err!)] Next(py.Iter#0); IsException(py.StopIteration, err!); ExceptionNewf(py.ValueError, \"need more than %d value(s) to unpack\", loop:k1) return | [err == nil] Next(py.Iter#0) }; SequenceList(py.Iter#0); py.SequenceList#0.Len(); ExceptionNewf(py.ValueError, \"need more than %d values to unpack\", len(l.Items) + p3) -> err!",
+		"[err == nil && len(l.Items) - p4 >= 0 && p4 != -1] Iter(p2); LOOP(for k1 = 0; k1 < p3; k1++){[!(py.IsException(py.StopIteration, err!)) && err != nil] Next(py.Iter#0); IsException(py.StopIteration, err!) return | [err != nil && py.IsException(py.StopIteration, err!)] Next(py.Iter#0); IsException(py.StopIteration, err!); ExceptionNewf(py.ValueError, \"need more than %d value(s) to unpack\", loop:k1) return | [err == nil] Next(py.Iter#0) }; SequenceList(py.Iter#0); py.SequenceList#0.Len(); LOOP(for k1 = argcntafter; k1 > 0; k1--){[err != nil] py.SequenceList#0.M__getitem__(len(l.Items) - loop:k1) return | [err == nil] py.SequenceList#0.M__getitem__(len(l.Items) - loop:k1) }; py.SequenceList#0.Resize(len(l.Items) - p4) -> nil",
+		"[err == nil && len(l.Items) - p4 >= 0 && p4 != -1] Iter(p2); LOOP(for k1 = 0; k1 < p3; k1++){[!(py.IsException(py.StopIteration, err!)) && err != nil] Next(py.Iter#0); IsException(py.StopIteration, err!) return | [err != nil && py.IsException(py.StopIteration, err!)] Next(py.Iter#0); IsException(py.StopIteration, err!); ExceptionNewf(py.ValueError, \"need more than %d value(s) to unpack\", loop:k1) return | [err == nil] Next(py.Iter#0) }; SequenceList(py.Iter#0); py.SequenceList#0.Len(); py.SequenceList#0.M__getitem__(len(l.Items) - loop:k1) -> err!",
+		"[err == nil && p4 != -1] Iter(p2); LOOP(for k1 = 0; k1 < p3; k1++){[!(py.IsException(py.StopIteration, err!)) && err != nil] Next(py.Iter#0); IsException(py.StopIteration, err!) return | [err != nil && py.IsException(py.StopIteration, err!)] Next(py.Iter#0); IsException(py.StopIteration, err!); ExceptionNewf(py.ValueError, \"need more than %d value(s) to unpack\", loop:k1) return | [err == nil] Next(py.Iter#0) }; SequenceList(py.Iter#0) -> err!",
+		"[err == nil && p4 == -1 && py.IsException(py.StopIteration, err!)] Iter(p2); LOOP(for k1 = 0; k1 < p3; k1++){[!(py.IsException(py.StopIteration, err!)) && err != nil] Next(py.Iter#0); IsException(py.StopIteration, err!) return | [err != nil && py.IsException(py.StopIteration, err!)] Next(py.Iter#0); IsException(py.StopIteration, err!); ExceptionNewf(py.ValueError, \"need more than %d value(s) to unpack\", loop:k1) return | [err == nil] Next(py.Iter#0) }; Next(py.Iter#0); IsException(py.StopIteration, err!) -> nil",
+		"[err == nil && p4 == -1] Iter(p2); LOOP(for k1 = 0; k1 < p3; k1++){[!(py.IsException(py.StopIteration, err!)) && err != nil] Next(py.Iter#0); IsException(py.StopIteration, err!) return | [err != nil && py.IsException(py.StopIteration, err!)] Next(py.Iter#0); IsException(py.StopIteration, err!); ExceptionNewf(py.ValueError, \"need more than %d value(s) to unpack\", loop:k1) return | [err == nil] Next(py.Iter#0) }; Next(py.Iter#0); ExceptionNewf(py.ValueError, \"too many values to unpack (expected %d)\", p3) -> err!",
+		"[err == nil && py.IsException(py.StopIteration, err!)] Iter(p2); Next(py.Iter#0); IsException(py.StopIteration, err!); ExceptionNewf(py.ValueError, \"need more than %d value(s) to unpack\", loop:k1) -> err!",
 	}
 	// with statement entry: __exit__ is looked up and pushed, __enter__ is looked up and called, and only after it returned without error is the finally block pushed and the result pushed — an exception from __enter__ must not run __exit__ [ceval.c SETUP_WITH]  []
 	pathSpec["vm|do_SETUP_WITH"] = []string{
 		"[err != nil] GetAttrString(slot0, \"__exit__\") -> err!",
 		"[err == nil] GetAttrString(slot0, \"__exit__\"); GetAttrString(slot0, \"__enter__\") -> err!",
 		"[err == nil] GetAttrString(slot0, \"__exit__\"); GetAttrString(slot0, \"__enter__\"); Call(py.GetAttrString#0'2, nil, nil) -> err!",
-		"[err == nil] GetAttrString(slot0, \"__exit__\"); GetAttrString(slot0, \"__enter__\"); Call(py.GetAttrString#0'2, nil, nil); vm.frame.PushBlock(2, delta + vm.frame.Lasti, H0) -> nil",
+		"[err == nil] GetAttrString(slot0, \"__exit__\"); GetAttrString(slot0, \"__enter__\"); Call(py.GetAttrString#0'2, nil, nil); vm.frame.PushBlock(2, p2 + vm.frame.Lasti, H0) -> nil",
 	}
 	// the implicit `return None` is omitted only when the very last element of the instruction stream is a RETURN_VALUE: a trailing label is a jump target that needs an instruction after it  []
 	pathSpec["compile|Instructions.EndsWithReturn"] = []string{
-		"[!(is[len(is) - 1].(*Op)) && len(is) != 0]  -> false",
-		"[is[len(is) - 1].(*Op) && is[len(is) - 1].Op != vm.RETURN_VALUE && len(is) != 0]  -> false",
-		"[is[len(is) - 1].(*Op) && is[len(is) - 1].Op == vm.RETURN_VALUE && len(is) != 0]  -> true",
+		"[!(recv[len(recv) - 1].(*Op)) && len(is) != 0]  -> false",
+		"[is[len(is) - 1].Op != vm.RETURN_VALUE && len(is) != 0 && recv[len(recv) - 1].(*Op)]  -> false",
+		"[is[len(is) - 1].Op == vm.RETURN_VALUE && len(is) != 0 && recv[len(recv) - 1].(*Op)]  -> true",
 		"[len(is) == 0]  -> false",
 	}
 	// incomplete-input decision (lexer half): a parse error without a message of its own is reported as 'unexpected EOF while parsing' exactly when the input ran out (x.eof), otherwise as 'invalid syntax' — the REPL continues a statement on the former  []
 	pathSpec["parser|yyLex.ErrorReturn"] = []string{
-		"[!(x.eof) && x.error && x.errorString == \"\"] x.errorString = \"invalid syntax\"; ExceptionNewf(py.SyntaxError, \"%s\", x.errorString) -> err!",
-		"[!(x.error)]  -> nil",
-		"[x.eof && x.error && x.errorString == \"\"] x.errorString = \"unexpected EOF while parsing\"; ExceptionNewf(py.SyntaxError, \"%s\", x.errorString) -> err!",
-		"[x.error && x.errorString != \"\"] ExceptionNewf(py.SyntaxError, \"%s\", x.errorString) -> err!",
+		"[!(recv.eof) && recv.error && recv.errorString == \"\"] recv.errorString = \"invalid syntax\"; ExceptionNewf(py.SyntaxError, \"%s\", x.errorString) -> err!",
+		"[!(recv.error)]  -> nil",
+		"[recv.eof && recv.error && recv.errorString == \"\"] recv.errorString = \"unexpected EOF while parsing\"; ExceptionNewf(py.SyntaxError, \"%s\", x.errorString) -> err!",
+		"[recv.error && recv.errorString != \"\"] ExceptionNewf(py.SyntaxError, \"%s\", x.errorString) -> err!",
 	}
 	// range equality compares the sequences the ranges denote: different lengths differ; empty ranges are equal; then the first items must agree; a range of one item needs nothing more; otherwise the steps must agree [rangeobject.c range_equals]  []
 	pathSpec["py|Range.M__eq__"] = []string{
-		"[!(other.(*Range))]  -> NotImplemented, nil",
-		"[a.Length != 0 && a.Length != 1 && a.Length - other.Length == 0 && a.Start - other.Start == 0 && a.Step - other.Step != 0 && other.(*Range)]  -> False, nil",
-		"[a.Length != 0 && a.Length != 1 && a.Length - other.Length == 0 && a.Start - other.Start == 0 && a.Step - other.Step == 0 && other.(*Range)]  -> True, nil",
-		"[a.Length != 0 && a.Length - other.Length == 0 && a.Start - other.Start != 0 && other.(*Range)]  -> False, nil",
-		"[a.Length - other.Length != 0 && other.(*Range)]  -> False, nil",
-		"[a.Length - other.Length == 0 && a.Length == 0 && other.(*Range)]  -> True, nil",
-		"[a.Length - other.Length == 0 && a.Length == 1 && a.Start - other.Start == 0 && other.(*Range)]  -> True, nil",
+		"[!(p1.(*Range))]  -> NotImplemented, nil",
+		"[a.Length != 0 && a.Length != 1 && a.Length - p1.Length == 0 && a.Start - p1.Start == 0 && a.Step - p1.Step != 0 && p1.(*Range)]  -> False, nil",
+		"[a.Length != 0 && a.Length != 1 && a.Length - p1.Length == 0 && a.Start - p1.Start == 0 && a.Step - p1.Step == 0 && p1.(*Range)]  -> True, nil",
+		"[a.Length != 0 && a.Length - p1.Length == 0 && a.Start - p1.Start != 0 && p1.(*Range)]  -> False, nil",
+		"[a.Length - p1.Length != 0 && p1.(*Range)]  -> False, nil",
+		"[a.Length - p1.Length == 0 && a.Length == 0 && p1.(*Range)]  -> True, nil",
+		"[a.Length - p1.Length == 0 && a.Length == 1 && a.Start - p1.Start == 0 && p1.(*Range)]  -> True, nil",
 	}
 	// name lookup in a namespace block: locals, then globals, then builtins, NameError last [ceval.c]  []
 	pathSpec["vm|do_LOAD_NAME"] = []string{
-		"[!(ok)] vm.frame.Lookup(vm.frame.Code.Names[namei]); ExceptionNewf(py.NameError, nameErrorMsg, vm.frame.Code.Names[namei]) -> err!",
-		"[ok] vm.frame.Lookup(vm.frame.Code.Names[namei]) -> nil",
+		"[!(ok)] vm.frame.Lookup(vm.frame.Code.Names[p2]); ExceptionNewf(py.NameError, nameErrorMsg, vm.frame.Code.Names[p2]) -> err!",
+		"[ok] vm.frame.Lookup(vm.frame.Code.Names[p2]) -> nil",
 	}
 	// global lookup: globals, then builtins, NameError last [ceval.c]  []
 	pathSpec["vm|do_LOAD_GLOBAL"] = []string{
-		"[!(ok)] vm.frame.LookupGlobal(vm.frame.Code.Names[namei]); ExceptionNewf(py.NameError, nameErrorMsg, vm.frame.Code.Names[namei]) -> err!",
-		"[ok] vm.frame.LookupGlobal(vm.frame.Code.Names[namei]) -> nil",
+		"[!(ok)] vm.frame.LookupGlobal(vm.frame.Code.Names[p2]); ExceptionNewf(py.NameError, nameErrorMsg, vm.frame.Code.Names[p2]) -> err!",
+		"[ok] vm.frame.LookupGlobal(vm.frame.Code.Names[p2]) -> nil",
 	}
 	// class-body free variable: the class namespace first, then the cell of the enclosing function, unbound error last [ceval.c]  []
 	pathSpec["vm|do_LOAD_CLASSDEREF"] = []string{
-		"[!(has(vm.frame.Locals[name])) && res != nil] _var_name(vm, i); vm.frame.CellAndFreeVars[i].Get() -> nil",
-		"[!(has(vm.frame.Locals[name])) && res == nil] _var_name(vm, i); vm.frame.CellAndFreeVars[i].Get(); unboundDeref(vm, i) -> vm.unboundDeref#0",
-		"[has(vm.frame.Locals[name])] _var_name(vm, i) -> nil",
+		"[!(has(vm.frame.Locals[name])) && res != nil] _var_name(vm, p2); vm.frame.CellAndFreeVars[p2].Get() -> nil",
+		"[!(has(vm.frame.Locals[name])) && res == nil] _var_name(vm, p2); vm.frame.CellAndFreeVars[p2].Get(); unboundDeref(vm, p2) -> vm.unboundDeref#0",
+		"[has(vm.frame.Locals[name])] _var_name(vm, p2) -> nil",
 	}
 	// free/cell variable read: the cell's content, unbound error when empty [ceval.c]  []
 	pathSpec["vm|do_LOAD_DEREF"] = []string{
-		"[res != nil] vm.frame.CellAndFreeVars[i].Get() -> nil",
-		"[res == nil] vm.frame.CellAndFreeVars[i].Get(); unboundDeref(vm, i) -> vm.unboundDeref#0",
+		"[res != nil] vm.frame.CellAndFreeVars[p2].Get() -> nil",
+		"[res == nil] vm.frame.CellAndFreeVars[p2].Get(); unboundDeref(vm, p2) -> vm.unboundDeref#0",
 	}
 	// name store goes to the frame's locals [ceval.c]  []
 	pathSpec["vm|do_STORE_NAME"] = []string{
-		"[] vm.frame.Locals[vm.frame.Code.Names[namei]] = slot0 -> nil",
+		"[] vm.frame.Locals[vm.frame.Code.Names[p2]] = slot0 -> nil",
 	}
 	// name delete removes from the frame's locals, NameError when absent [ceval.c]  []
 	pathSpec["vm|do_DELETE_NAME"] = []string{
-		"[!(has(vm.frame.Locals[name]))] ExceptionNewf(py.NameError, nameErrorMsg, vm.frame.Code.Names[namei]) -> err!",
+		"[!(has(vm.frame.Locals[name]))] ExceptionNewf(py.NameError, nameErrorMsg, vm.frame.Code.Names[p2]) -> err!",
 		"[has(vm.frame.Locals[name])]  -> nil",
 	}
 	// global store goes to the frame's globals [ceval.c]  []
 	pathSpec["vm|do_STORE_GLOBAL"] = []string{
-		"[] vm.frame.Globals[vm.frame.Code.Names[namei]] = slot0 -> nil",
+		"[] vm.frame.Globals[vm.frame.Code.Names[p2]] = slot0 -> nil",
 	}
 	// global delete removes from the frame's globals, NameError when absent [ceval.c]  []
 	pathSpec["vm|do_DELETE_GLOBAL"] = []string{
-		"[!(has(vm.frame.Globals[name]))] ExceptionNewf(py.NameError, nameErrorMsg, vm.frame.Code.Names[namei]) -> err!",
+		"[!(has(vm.frame.Globals[name]))] ExceptionNewf(py.NameError, nameErrorMsg, vm.frame.Code.Names[p2]) -> err!",
 		"[has(vm.frame.Globals[name])]  -> nil",
 	}
 	// cell store sets the cell of slot i [ceval.c]  []
 	pathSpec["vm|do_STORE_DEREF"] = []string{
-		"[] vm.frame.CellAndFreeVars[i].Set(slot0) -> nil",
+		"[] vm.frame.CellAndFreeVars[p2].Set(slot0) -> nil",
 	}
 	// cell delete empties the cell, unbound error when already empty [ceval.c]  []
 	pathSpec["vm|do_DELETE_DEREF"] = []string{
-		"[cell.Get() != nil] vm.frame.CellAndFreeVars[i].Get(); vm.frame.CellAndFreeVars[i].Delete() -> nil",
-		"[cell.Get() == nil] vm.frame.CellAndFreeVars[i].Get(); unboundDeref(vm, i) -> vm.unboundDeref#0",
+		"[cell.Get() != nil] vm.frame.CellAndFreeVars[p2].Get(); vm.frame.CellAndFreeVars[p2].Delete() -> nil",
+		"[cell.Get() == nil] vm.frame.CellAndFreeVars[p2].Get(); unboundDeref(vm, p2) -> vm.unboundDeref#0",
 	}
 	// pushes the cell object of slot i itself [ceval.c]  []
 	pathSpec["vm|do_LOAD_CLOSURE"] = []string{
@@ -165,82 +165,82 @@ func init() {
 	}
 	// LOAD_NAME order: the frame's locals, then its globals, then the builtins [ceval.c LOAD_NAME]  []
 	pathSpec["py|Frame.Lookup"] = []string{
-		"[!(has(f.Builtins[name])) && !(has(f.Globals[name])) && !(has(f.Locals[name]))]  -> nil, false",
-		"[!(has(f.Globals[name])) && !(has(f.Locals[name])) && has(f.Builtins[name])] ",
-		"[!(has(f.Locals[name])) && has(f.Globals[name])] ",
-		"[has(f.Locals[name])] ",
+		"[!(has(recv.Builtins[p1])) && !(has(recv.Globals[p1])) && !(has(recv.Locals[p1]))]  -> nil, false",
+		"[!(has(recv.Globals[p1])) && !(has(recv.Locals[p1])) && has(recv.Builtins[p1])] ",
+		"[!(has(recv.Locals[p1])) && has(recv.Globals[p1])] ",
+		"[has(recv.Locals[p1])] ",
 	}
 	// LOAD_GLOBAL order: the frame's globals, then the builtins [ceval.c LOAD_GLOBAL]  []
 	pathSpec["py|Frame.LookupGlobal"] = []string{
-		"[!(has(f.Builtins[name])) && !(has(f.Globals[name]))]  -> nil, false",
-		"[!(has(f.Globals[name])) && has(f.Builtins[name])] ",
-		"[has(f.Globals[name])] ",
+		"[!(has(recv.Builtins[p1])) && !(has(recv.Globals[p1]))]  -> nil, false",
+		"[!(has(recv.Globals[p1])) && has(recv.Builtins[p1])] ",
+		"[has(recv.Globals[p1])] ",
 	}
 	// symbol-table update after scope analysis: scope bits are recorded; in a class block a name that is free in a method and bound OR declared global in the class gets DefFreeClass; a free name unknown to the block is added as free [symtable.c update_symbols] — the compiler's closure construction relies on it  []
 	pathSpec["symtable|Symbols.Update"] = []string{
-		"[] LOOP(range symbols){[]  }; LOOP(range free){[!(bound.Contains(name)) && !(has(symbols[name]))]   | [!(classflag) && has(symbols[name])]   | [!(has(symbols[name])) && bound.Contains(name)]   | [(symbol.Flags & (DefBound | DefGlobal)) != 0 && classflag && has(symbols[name])]   | [(symbol.Flags & (DefBound | DefGlobal)) == 0 && classflag && has(symbols[name])]  }",
+		"[] LOOP(range recv){[]  }; LOOP(range p3){[!(has(recv[name])) && !(p2.Contains(name))]   | [!(has(recv[name])) && p2.Contains(name)]   | [!(p4) && has(recv[name])]   | [(symbol.Flags & (DefBound | DefGlobal)) != 0 && has(recv[name]) && p4]   | [(symbol.Flags & (DefBound | DefGlobal)) == 0 && has(recv[name]) && p4]  }",
 	}
 	// repr/ascii escaping per character class: control characters as \t \n \r \xHH; in repr mode printable ASCII with backslash and the chosen quote escaped; in ascii mode ASCII passes through untouched (the text is an already escaped repr); Latin-1, BMP and astral characters printable-or-escaped by width  []
 	pathSpec["py|StringEscape"] = []string{
-		"[!(ascii) && !(strings.ContainsRune(s, '\"')) && strings.ContainsRune(s, '\\'')] ContainsRune(a, 39); ContainsRune(a, 34); zero.WriteRune(34); LOOP(range s){[!(strconv.IsPrint(c)) && a[*] <= 255 && a[*] >= 127 && a[*] >= 32] IsPrint(a[*]); Fprintf(zero, \"\\\\x%02x\", a[*])  | [!(strconv.IsPrint(c)) && a[*] <= 65535 && a[*] >= 127 && a[*] >= 256 && a[*] >= 32] IsPrint(a[*]); Fprintf(zero, \"\\\\u%04x\", a[*])  | [!(strconv.IsPrint(c)) && a[*] >= 127 && a[*] >= 256 && a[*] >= 32 && a[*] >= 65536] IsPrint(a[*]); Fprintf(zero, \"\\\\U%08x\", a[*])  | [a[*] != 10 && a[*] != 13 && a[*] != 9 && a[*] <= 31] Fprintf(zero, `\\x%02x`, a[*])  | [a[*] != 34 && a[*] != 92 && a[*] <= 126 && a[*] >= 32] zero.WriteRune(a[*])  | [a[*] <= 126 && a[*] == 34 && a[*] >= 32] zero.WriteRune(92); zero.WriteRune(a[*])  | [a[*] <= 126 && a[*] == 92 && a[*] >= 32] zero.WriteRune(92); zero.WriteRune(a[*])  | [a[*] <= 255 && a[*] >= 127 && a[*] >= 32 && strconv.IsPrint(c)] IsPrint(a[*]); zero.WriteRune(a[*])  | [a[*] <= 31 && a[*] == 10] zero.WriteString(`\\n`)  | [a[*] <= 31 && a[*] == 13] zero.WriteString(`\\r`)  | [a[*] <= 31 && a[*] == 9] zero.WriteString(`\\t`)  | [a[*] <= 65535 && a[*] >= 127 && a[*] >= 256 && a[*] >= 32 && strconv.IsPrint(c)] IsPrint(a[*]); zero.WriteRune(a[*])  | [a[*] >= 127 && a[*] >= 256 && a[*] >= 32 && a[*] >= 65536 && strconv.IsPrint(c)] IsPrint(a[*]); zero.WriteRune(a[*]) }; zero.WriteRune(34); zero.String() -> (*bytes.Buffer).String#0",
-		"[!(ascii) && !(strings.ContainsRune(s, '\\''))] ContainsRune(a, 39); zero.WriteRune(39); LOOP(range s){[!(strconv.IsPrint(c)) && a[*] <= 255 && a[*] >= 127 && a[*] >= 32] IsPrint(a[*]); Fprintf(zero, \"\\\\x%02x\", a[*])  | [!(strconv.IsPrint(c)) && a[*] <= 65535 && a[*] >= 127 && a[*] >= 256 && a[*] >= 32] IsPrint(a[*]); Fprintf(zero, \"\\\\u%04x\", a[*])  | [!(strconv.IsPrint(c)) && a[*] >= 127 && a[*] >= 256 && a[*] >= 32 && a[*] >= 65536] IsPrint(a[*]); Fprintf(zero, \"\\\\U%08x\", a[*])  | [a[*] != 10 && a[*] != 13 && a[*] != 9 && a[*] <= 31] Fprintf(zero, `\\x%02x`, a[*])  | [a[*] != 39 && a[*] != 92 && a[*] <= 126 && a[*] >= 32] zero.WriteRune(a[*])  | [a[*] <= 126 && a[*] == 39 && a[*] >= 32] zero.WriteRune(92); zero.WriteRune(a[*])  | [a[*] <= 126 && a[*] == 92 && a[*] >= 32] zero.WriteRune(92); zero.WriteRune(a[*])  | [a[*] <= 255 && a[*] >= 127 && a[*] >= 32 && strconv.IsPrint(c)] IsPrint(a[*]); zero.WriteRune(a[*])  | [a[*] <= 31 && a[*] == 10] zero.WriteString(`\\n`)  | [a[*] <= 31 && a[*] == 13] zero.WriteString(`\\r`)  | [a[*] <= 31 && a[*] == 9] zero.WriteString(`\\t`)  | [a[*] <= 65535 && a[*] >= 127 && a[*] >= 256 && a[*] >= 32 && strconv.IsPrint(c)] IsPrint(a[*]); zero.WriteRune(a[*])  | [a[*] >= 127 && a[*] >= 256 && a[*] >= 32 && a[*] >= 65536 && strconv.IsPrint(c)] IsPrint(a[*]); zero.WriteRune(a[*]) }; zero.WriteRune(39); zero.String() -> (*bytes.Buffer).String#0",
-		"[!(ascii) && strings.ContainsRune(s, '\"') && strings.ContainsRune(s, '\\'')] ContainsRune(a, 39); ContainsRune(a, 34); zero.WriteRune(39); LOOP(range s){[!(strconv.IsPrint(c)) && a[*] <= 255 && a[*] >= 127 && a[*] >= 32] IsPrint(a[*]); Fprintf(zero, \"\\\\x%02x\", a[*])  | [!(strconv.IsPrint(c)) && a[*] <= 65535 && a[*] >= 127 && a[*] >= 256 && a[*] >= 32] IsPrint(a[*]); Fprintf(zero, \"\\\\u%04x\", a[*])  | [!(strconv.IsPrint(c)) && a[*] >= 127 && a[*] >= 256 && a[*] >= 32 && a[*] >= 65536] IsPrint(a[*]); Fprintf(zero, \"\\\\U%08x\", a[*])  | [a[*] != 10 && a[*] != 13 && a[*] != 9 && a[*] <= 31] Fprintf(zero, `\\x%02x`, a[*])  | [a[*] != 39 && a[*] != 92 && a[*] <= 126 && a[*] >= 32] zero.WriteRune(a[*])  | [a[*] <= 126 && a[*] == 39 && a[*] >= 32] zero.WriteRune(92); zero.WriteRune(a[*])  | [a[*] <= 126 && a[*] == 92 && a[*] >= 32] zero.WriteRune(92); zero.WriteRune(a[*])  | [a[*] <= 255 && a[*] >= 127 && a[*] >= 32 && strconv.IsPrint(c)] IsPrint(a[*]); zero.WriteRune(a[*])  | [a[*] <= 31 && a[*] == 10] zero.WriteString(`\\n`)  | [a[*] <= 31 && a[*] == 13] zero.WriteString(`\\r`)  | [a[*] <= 31 && a[*] == 9] zero.WriteString(`\\t`)  | [a[*] <= 65535 && a[*] >= 127 && a[*] >= 256 && a[*] >= 32 && strconv.IsPrint(c)] IsPrint(a[*]); zero.WriteRune(a[*])  | [a[*] >= 127 && a[*] >= 256 && a[*] >= 32 && a[*] >= 65536 && strconv.IsPrint(c)] IsPrint(a[*]); zero.WriteRune(a[*]) }; zero.WriteRune(39); zero.String() -> (*bytes.Buffer).String#0",
-		"[!(strings.ContainsRune(s, '\"')) && ascii && strings.ContainsRune(s, '\\'')] ContainsRune(a, 39); ContainsRune(a, 34); LOOP(range s){[a[*] != 10 && a[*] != 13 && a[*] != 9 && a[*] <= 31] Fprintf(zero, `\\x%02x`, a[*])  | [a[*] <= 126 && a[*] <= 255 && a[*] >= 32] zero.WriteRune(a[*])  | [a[*] <= 255 && a[*] >= 127 && a[*] >= 32] Fprintf(zero, \"\\\\x%02x\", a[*])  | [a[*] <= 31 && a[*] == 10] zero.WriteString(`\\n`)  | [a[*] <= 31 && a[*] == 13] zero.WriteString(`\\r`)  | [a[*] <= 31 && a[*] == 9] zero.WriteString(`\\t`)  | [a[*] <= 65535 && a[*] >= 256 && a[*] >= 32] Fprintf(zero, \"\\\\u%04x\", a[*])  | [a[*] >= 256 && a[*] >= 32 && a[*] >= 65536] Fprintf(zero, \"\\\\U%08x\", a[*]) }; zero.String() -> (*bytes.Buffer).String#0",
-		"[!(strings.ContainsRune(s, '\\'')) && ascii] ContainsRune(a, 39); LOOP(range s){[a[*] != 10 && a[*] != 13 && a[*] != 9 && a[*] <= 31] Fprintf(zero, `\\x%02x`, a[*])  | [a[*] <= 126 && a[*] <= 255 && a[*] >= 32] zero.WriteRune(a[*])  | [a[*] <= 255 && a[*] >= 127 && a[*] >= 32] Fprintf(zero, \"\\\\x%02x\", a[*])  | [a[*] <= 31 && a[*] == 10] zero.WriteString(`\\n`)  | [a[*] <= 31 && a[*] == 13] zero.WriteString(`\\r`)  | [a[*] <= 31 && a[*] == 9] zero.WriteString(`\\t`)  | [a[*] <= 65535 && a[*] >= 256 && a[*] >= 32] Fprintf(zero, \"\\\\u%04x\", a[*])  | [a[*] >= 256 && a[*] >= 32 && a[*] >= 65536] Fprintf(zero, \"\\\\U%08x\", a[*]) }; zero.String() -> (*bytes.Buffer).String#0",
-		"[ascii && strings.ContainsRune(s, '\"') && strings.ContainsRune(s, '\\'')] ContainsRune(a, 39); ContainsRune(a, 34); LOOP(range s){[a[*] != 10 && a[*] != 13 && a[*] != 9 && a[*] <= 31] Fprintf(zero, `\\x%02x`, a[*])  | [a[*] <= 126 && a[*] <= 255 && a[*] >= 32] zero.WriteRune(a[*])  | [a[*] <= 255 && a[*] >= 127 && a[*] >= 32] Fprintf(zero, \"\\\\x%02x\", a[*])  | [a[*] <= 31 && a[*] == 10] zero.WriteString(`\\n`)  | [a[*] <= 31 && a[*] == 13] zero.WriteString(`\\r`)  | [a[*] <= 31 && a[*] == 9] zero.WriteString(`\\t`)  | [a[*] <= 65535 && a[*] >= 256 && a[*] >= 32] Fprintf(zero, \"\\\\u%04x\", a[*])  | [a[*] >= 256 && a[*] >= 32 && a[*] >= 65536] Fprintf(zero, \"\\\\U%08x\", a[*]) }; zero.String() -> (*bytes.Buffer).String#0",
+		"[!(p2) && !(strings.ContainsRune(p1, 34)) && strings.ContainsRune(p1, 39)] ContainsRune(p1, 39); ContainsRune(p1, 34); zero.WriteRune(34); LOOP(range string(p1)){[!(strconv.IsPrint(p1[*])) && p1[*] <= 255 && p1[*] >= 127 && p1[*] >= 32] IsPrint(p1[*]); Fprintf(zero, \"\\\\x%02x\", p1[*])  | [!(strconv.IsPrint(p1[*])) && p1[*] <= 65535 && p1[*] >= 127 && p1[*] >= 256 && p1[*] >= 32] IsPrint(p1[*]); Fprintf(zero, \"\\\\u%04x\", p1[*])  | [!(strconv.IsPrint(p1[*])) && p1[*] >= 127 && p1[*] >= 256 && p1[*] >= 32 && p1[*] >= 65536] IsPrint(p1[*]); Fprintf(zero, \"\\\\U%08x\", p1[*])  | [p1[*] != 10 && p1[*] != 13 && p1[*] != 9 && p1[*] <= 31] Fprintf(zero, `\\x%02x`, p1[*])  | [p1[*] != 34 && p1[*] != 92 && p1[*] <= 126 && p1[*] >= 32] zero.WriteRune(p1[*])  | [p1[*] <= 126 && p1[*] == 34 && p1[*] >= 32] zero.WriteRune(92); zero.WriteRune(p1[*])  | [p1[*] <= 126 && p1[*] == 92 && p1[*] >= 32] zero.WriteRune(92); zero.WriteRune(p1[*])  | [p1[*] <= 255 && p1[*] >= 127 && p1[*] >= 32 && strconv.IsPrint(p1[*])] IsPrint(p1[*]); zero.WriteRune(p1[*])  | [p1[*] <= 31 && p1[*] == 10] zero.WriteString(`\\n`)  | [p1[*] <= 31 && p1[*] == 13] zero.WriteString(`\\r`)  | [p1[*] <= 31 && p1[*] == 9] zero.WriteString(`\\t`)  | [p1[*] <= 65535 && p1[*] >= 127 && p1[*] >= 256 && p1[*] >= 32 && strconv.IsPrint(p1[*])] IsPrint(p1[*]); zero.WriteRune(p1[*])  | [p1[*] >= 127 && p1[*] >= 256 && p1[*] >= 32 && p1[*] >= 65536 && strconv.IsPrint(p1[*])] IsPrint(p1[*]); zero.WriteRune(p1[*]) }; zero.WriteRune(34); zero.String() -> (*bytes.Buffer).String#0",
+		"[!(p2) && !(strings.ContainsRune(p1, 39))] ContainsRune(p1, 39); zero.WriteRune(39); LOOP(range string(p1)){[!(strconv.IsPrint(p1[*])) && p1[*] <= 255 && p1[*] >= 127 && p1[*] >= 32] IsPrint(p1[*]); Fprintf(zero, \"\\\\x%02x\", p1[*])  | [!(strconv.IsPrint(p1[*])) && p1[*] <= 65535 && p1[*] >= 127 && p1[*] >= 256 && p1[*] >= 32] IsPrint(p1[*]); Fprintf(zero, \"\\\\u%04x\", p1[*])  | [!(strconv.IsPrint(p1[*])) && p1[*] >= 127 && p1[*] >= 256 && p1[*] >= 32 && p1[*] >= 65536] IsPrint(p1[*]); Fprintf(zero, \"\\\\U%08x\", p1[*])  | [p1[*] != 10 && p1[*] != 13 && p1[*] != 9 && p1[*] <= 31] Fprintf(zero, `\\x%02x`, p1[*])  | [p1[*] != 39 && p1[*] != 92 && p1[*] <= 126 && p1[*] >= 32] zero.WriteRune(p1[*])  | [p1[*] <= 126 && p1[*] == 39 && p1[*] >= 32] zero.WriteRune(92); zero.WriteRune(p1[*])  | [p1[*] <= 126 && p1[*] == 92 && p1[*] >= 32] zero.WriteRune(92); zero.WriteRune(p1[*])  | [p1[*] <= 255 && p1[*] >= 127 && p1[*] >= 32 && strconv.IsPrint(p1[*])] IsPrint(p1[*]); zero.WriteRune(p1[*])  | [p1[*] <= 31 && p1[*] == 10] zero.WriteString(`\\n`)  | [p1[*] <= 31 && p1[*] == 13] zero.WriteString(`\\r`)  | [p1[*] <= 31 && p1[*] == 9] zero.WriteString(`\\t`)  | [p1[*] <= 65535 && p1[*] >= 127 && p1[*] >= 256 && p1[*] >= 32 && strconv.IsPrint(p1[*])] IsPrint(p1[*]); zero.WriteRune(p1[*])  | [p1[*] >= 127 && p1[*] >= 256 && p1[*] >= 32 && p1[*] >= 65536 && strconv.IsPrint(p1[*])] IsPrint(p1[*]); zero.WriteRune(p1[*]) }; zero.WriteRune(39); zero.String() -> (*bytes.Buffer).String#0",
+		"[!(p2) && strings.ContainsRune(p1, 34) && strings.ContainsRune(p1, 39)] ContainsRune(p1, 39); ContainsRune(p1, 34); zero.WriteRune(39); LOOP(range string(p1)){[!(strconv.IsPrint(p1[*])) && p1[*] <= 255 && p1[*] >= 127 && p1[*] >= 32] IsPrint(p1[*]); Fprintf(zero, \"\\\\x%02x\", p1[*])  | [!(strconv.IsPrint(p1[*])) && p1[*] <= 65535 && p1[*] >= 127 && p1[*] >= 256 && p1[*] >= 32] IsPrint(p1[*]); Fprintf(zero, \"\\\\u%04x\", p1[*])  | [!(strconv.IsPrint(p1[*])) && p1[*] >= 127 && p1[*] >= 256 && p1[*] >= 32 && p1[*] >= 65536] IsPrint(p1[*]); Fprintf(zero, \"\\\\U%08x\", p1[*])  | [p1[*] != 10 && p1[*] != 13 && p1[*] != 9 && p1[*] <= 31] Fprintf(zero, `\\x%02x`, p1[*])  | [p1[*] != 39 && p1[*] != 92 && p1[*] <= 126 && p1[*] >= 32] zero.WriteRune(p1[*])  | [p1[*] <= 126 && p1[*] == 39 && p1[*] >= 32] zero.WriteRune(92); zero.WriteRune(p1[*])  | [p1[*] <= 126 && p1[*] == 92 && p1[*] >= 32] zero.WriteRune(92); zero.WriteRune(p1[*])  | [p1[*] <= 255 && p1[*] >= 127 && p1[*] >= 32 && strconv.IsPrint(p1[*])] IsPrint(p1[*]); zero.WriteRune(p1[*])  | [p1[*] <= 31 && p1[*] == 10] zero.WriteString(`\\n`)  | [p1[*] <= 31 && p1[*] == 13] zero.WriteString(`\\r`)  | [p1[*] <= 31 && p1[*] == 9] zero.WriteString(`\\t`)  | [p1[*] <= 65535 && p1[*] >= 127 && p1[*] >= 256 && p1[*] >= 32 && strconv.IsPrint(p1[*])] IsPrint(p1[*]); zero.WriteRune(p1[*])  | [p1[*] >= 127 && p1[*] >= 256 && p1[*] >= 32 && p1[*] >= 65536 && strconv.IsPrint(p1[*])] IsPrint(p1[*]); zero.WriteRune(p1[*]) }; zero.WriteRune(39); zero.String() -> (*bytes.Buffer).String#0",
+		"[!(strings.ContainsRune(p1, 34)) && p2 && strings.ContainsRune(p1, 39)] ContainsRune(p1, 39); ContainsRune(p1, 34); LOOP(range string(p1)){[p1[*] != 10 && p1[*] != 13 && p1[*] != 9 && p1[*] <= 31] Fprintf(zero, `\\x%02x`, p1[*])  | [p1[*] <= 126 && p1[*] <= 255 && p1[*] >= 32] zero.WriteRune(p1[*])  | [p1[*] <= 255 && p1[*] >= 127 && p1[*] >= 32] Fprintf(zero, \"\\\\x%02x\", p1[*])  | [p1[*] <= 31 && p1[*] == 10] zero.WriteString(`\\n`)  | [p1[*] <= 31 && p1[*] == 13] zero.WriteString(`\\r`)  | [p1[*] <= 31 && p1[*] == 9] zero.WriteString(`\\t`)  | [p1[*] <= 65535 && p1[*] >= 256 && p1[*] >= 32] Fprintf(zero, \"\\\\u%04x\", p1[*])  | [p1[*] >= 256 && p1[*] >= 32 && p1[*] >= 65536] Fprintf(zero, \"\\\\U%08x\", p1[*]) }; zero.String() -> (*bytes.Buffer).String#0",
+		"[!(strings.ContainsRune(p1, 39)) && p2] ContainsRune(p1, 39); LOOP(range string(p1)){[p1[*] != 10 && p1[*] != 13 && p1[*] != 9 && p1[*] <= 31] Fprintf(zero, `\\x%02x`, p1[*])  | [p1[*] <= 126 && p1[*] <= 255 && p1[*] >= 32] zero.WriteRune(p1[*])  | [p1[*] <= 255 && p1[*] >= 127 && p1[*] >= 32] Fprintf(zero, \"\\\\x%02x\", p1[*])  | [p1[*] <= 31 && p1[*] == 10] zero.WriteString(`\\n`)  | [p1[*] <= 31 && p1[*] == 13] zero.WriteString(`\\r`)  | [p1[*] <= 31 && p1[*] == 9] zero.WriteString(`\\t`)  | [p1[*] <= 65535 && p1[*] >= 256 && p1[*] >= 32] Fprintf(zero, \"\\\\u%04x\", p1[*])  | [p1[*] >= 256 && p1[*] >= 32 && p1[*] >= 65536] Fprintf(zero, \"\\\\U%08x\", p1[*]) }; zero.String() -> (*bytes.Buffer).String#0",
+		"[p2 && strings.ContainsRune(p1, 34) && strings.ContainsRune(p1, 39)] ContainsRune(p1, 39); ContainsRune(p1, 34); LOOP(range string(p1)){[p1[*] != 10 && p1[*] != 13 && p1[*] != 9 && p1[*] <= 31] Fprintf(zero, `\\x%02x`, p1[*])  | [p1[*] <= 126 && p1[*] <= 255 && p1[*] >= 32] zero.WriteRune(p1[*])  | [p1[*] <= 255 && p1[*] >= 127 && p1[*] >= 32] Fprintf(zero, \"\\\\x%02x\", p1[*])  | [p1[*] <= 31 && p1[*] == 10] zero.WriteString(`\\n`)  | [p1[*] <= 31 && p1[*] == 13] zero.WriteString(`\\r`)  | [p1[*] <= 31 && p1[*] == 9] zero.WriteString(`\\t`)  | [p1[*] <= 65535 && p1[*] >= 256 && p1[*] >= 32] Fprintf(zero, \"\\\\u%04x\", p1[*])  | [p1[*] >= 256 && p1[*] >= 32 && p1[*] >= 65536] Fprintf(zero, \"\\\\U%08x\", p1[*]) }; zero.String() -> (*bytes.Buffer).String#0",
 	}
 	// list item and slice assignment: indices from GetIndices/IndexIntCheck; simple slices read the operand first, copy the tail unconditionally, splice; extended slices check the length and store by counting slicelength items [listobject.c list_ass_subscript]  []
 	pathSpec["py|List.M__setitem__"] = []string{
-		"[!(key.(*Slice)) && err != nil] IndexIntCheck(key, len(l.Items)) -> nil, err!",
-		"[!(key.(*Slice)) && err == nil] IndexIntCheck(key, len(l.Items)); l.Items[i] = value -> None, nil",
-		"[err != nil && key.(*Slice)] key.GetIndices(len(l.Items)) -> nil, err!",
-		"[err == nil && key.(*Slice) && len(py.SequenceTuple#0) - ret#3:slice.GetIndices(len(l.Items)) != 0 && ret#2:slice.GetIndices(len(l.Items)) != 1] key.GetIndices(len(l.Items)); SequenceTuple(value); ExceptionNewf(ValueError, lit, len(py.SequenceTuple#0), ret#3:slice.GetIndices(len(l.Items))) -> nil, err!",
-		"[err == nil && key.(*Slice) && len(py.SequenceTuple#0) - ret#3:slice.GetIndices(len(l.Items)) == 0 && ret#2:slice.GetIndices(len(l.Items)) != 1] key.GetIndices(len(l.Items)); SequenceTuple(value); LOOP(for i, j := start, 0; j < slicelength; i, j = i+step, j+1){[]  } -> None, nil",
-		"[err == nil && key.(*Slice) && ret#0:slice.GetIndices(len(l.Items)) - ret#1:slice.GetIndices(len(l.Items)) <= 0 && ret#2:slice.GetIndices(len(l.Items)) == 1] key.GetIndices(len(l.Items)); SequenceTuple(value); l.Items = append(l.Items[:start], py.SequenceTuple#0); l.Items = append(l.Items, copy-of[l.Items[stop:]]) -> None, nil",
-		"[err == nil && key.(*Slice) && ret#0:slice.GetIndices(len(l.Items)) - ret#1:slice.GetIndices(len(l.Items)) >= 1 && ret#2:slice.GetIndices(len(l.Items)) == 1] key.GetIndices(len(l.Items)); SequenceTuple(value); l.Items = append(l.Items[:start], py.SequenceTuple#0); l.Items = append(l.Items, copy-of[l.Items[stop:]]) -> None, nil",
-		"[err == nil && key.(*Slice)] key.GetIndices(len(l.Items)); SequenceTuple(value) -> nil, err!",
+		"[!(p1.(*Slice)) && err != nil] IndexIntCheck(p1, len(recv.Items)) -> nil, err!",
+		"[!(p1.(*Slice)) && err == nil] IndexIntCheck(p1, len(recv.Items)); recv.Items[i] = p2 -> None, nil",
+		"[err != nil && p1.(*Slice)] p1.GetIndices(len(recv.Items)) -> nil, err!",
+		"[err == nil && len(py.SequenceTuple#0) - ret#3:slice.GetIndices(len(recv.Items)) != 0 && p1.(*Slice) && ret#2:slice.GetIndices(len(recv.Items)) != 1] p1.GetIndices(len(recv.Items)); SequenceTuple(p2); ExceptionNewf(ValueError, lit, len(py.SequenceTuple#0), ret#3:slice.GetIndices(len(recv.Items))) -> nil, err!",
+		"[err == nil && len(py.SequenceTuple#0) - ret#3:slice.GetIndices(len(recv.Items)) == 0 && p1.(*Slice) && ret#2:slice.GetIndices(len(recv.Items)) != 1] p1.GetIndices(len(recv.Items)); SequenceTuple(p2); LOOP(for i, j := start, 0; j < slicelength; i, j = i+step, j+1){[]  } -> None, nil",
+		"[err == nil && p1.(*Slice) && ret#0:slice.GetIndices(len(recv.Items)) - ret#1:slice.GetIndices(len(recv.Items)) <= 0 && ret#2:slice.GetIndices(len(recv.Items)) == 1] p1.GetIndices(len(recv.Items)); SequenceTuple(p2); recv.Items = append(recv.Items[:start], py.SequenceTuple#0); recv.Items = append(l.Items, copy-of[recv.Items[stop:]]) -> None, nil",
+		"[err == nil && p1.(*Slice) && ret#0:slice.GetIndices(len(recv.Items)) - ret#1:slice.GetIndices(len(recv.Items)) >= 1 && ret#2:slice.GetIndices(len(recv.Items)) == 1] p1.GetIndices(len(recv.Items)); SequenceTuple(p2); recv.Items = append(recv.Items[:start], py.SequenceTuple#0); recv.Items = append(l.Items, copy-of[recv.Items[stop:]]) -> None, nil",
+		"[err == nil && p1.(*Slice)] p1.GetIndices(len(recv.Items)); SequenceTuple(p2) -> nil, err!",
 	}
 	// list item and slice deletion: simple slices clamp stop to start and splice; extended slices delete slicelength items in ascending order, starting for a negative step from start+step*(slicelength-1) [listobject.c list_ass_subscript]  []
 	pathSpec["py|List.M__delitem__"] = []string{
-		"[!(key.(*Slice)) && err != nil] IndexIntCheck(key, len(a.Items)) -> nil, err!",
-		"[!(key.(*Slice)) && err == nil] IndexIntCheck(key, len(a.Items)); a.DelItem(ret#0:IndexIntCheck(key, len(a.Items))) -> None, nil",
-		"[err != nil && key.(*Slice)] key.GetIndices(len(a.Items)) -> nil, err!",
-		"[err == nil && key.(*Slice) && ret#0:slice.GetIndices(len(a.Items)) - ret#1:slice.GetIndices(len(a.Items)) <= 0 && ret#2:slice.GetIndices(len(a.Items)) == 1] key.GetIndices(len(a.Items)); a.Items = append(a.Items[:start], a.Items[stop:]) -> None, nil",
-		"[err == nil && key.(*Slice) && ret#0:slice.GetIndices(len(a.Items)) - ret#1:slice.GetIndices(len(a.Items)) >= 1 && ret#2:slice.GetIndices(len(a.Items)) == 1] key.GetIndices(len(a.Items)); a.Items = append(a.Items[:start], a.Items[stop:]) -> None, nil",
-		"[err == nil && key.(*Slice) && ret#2:slice.GetIndices(len(a.Items)) != 1 && ret#2:slice.GetIndices(len(a.Items)) <= -1] key.GetIndices(len(a.Items)); LOOP(for k1 = 0; k1 < slicelength; k1++){[] a.DelItem(start + k1 * step - k1) } -> None, nil",
-		"[err == nil && key.(*Slice) && ret#2:slice.GetIndices(len(a.Items)) != 1 && ret#2:slice.GetIndices(len(a.Items)) >= 0] key.GetIndices(len(a.Items)); LOOP(for k1 = 0; k1 < slicelength; k1++){[] a.DelItem(start + k1 * step - k1) } -> None, nil",
+		"[!(p1.(*Slice)) && err != nil] IndexIntCheck(p1, len(recv.Items)) -> nil, err!",
+		"[!(p1.(*Slice)) && err == nil] IndexIntCheck(p1, len(recv.Items)); a.DelItem(ret#0:IndexIntCheck(p1, len(recv.Items))) -> None, nil",
+		"[err != nil && p1.(*Slice)] p1.GetIndices(len(recv.Items)) -> nil, err!",
+		"[err == nil && p1.(*Slice) && ret#0:slice.GetIndices(len(recv.Items)) - ret#1:slice.GetIndices(len(recv.Items)) <= 0 && ret#2:slice.GetIndices(len(recv.Items)) == 1] p1.GetIndices(len(recv.Items)); recv.Items = append(recv.Items[:start], recv.Items[stop:]) -> None, nil",
+		"[err == nil && p1.(*Slice) && ret#0:slice.GetIndices(len(recv.Items)) - ret#1:slice.GetIndices(len(recv.Items)) >= 1 && ret#2:slice.GetIndices(len(recv.Items)) == 1] p1.GetIndices(len(recv.Items)); recv.Items = append(recv.Items[:start], recv.Items[stop:]) -> None, nil",
+		"[err == nil && p1.(*Slice) && ret#2:slice.GetIndices(len(recv.Items)) != 1 && ret#2:slice.GetIndices(len(recv.Items)) <= -1] p1.GetIndices(len(recv.Items)); LOOP(for k1 = 0; k1 < slicelength; k1++){[] a.DelItem(start + k1 * step - k1) } -> None, nil",
+		"[err == nil && p1.(*Slice) && ret#2:slice.GetIndices(len(recv.Items)) != 1 && ret#2:slice.GetIndices(len(recv.Items)) >= 0] p1.GetIndices(len(recv.Items)); LOOP(for k1 = 0; k1 < slicelength; k1++){[] a.DelItem(start + k1 * step - k1) } -> None, nil",
 	}
 	// in-place set operators adopt the result of the binary operator unconditionally and evaluate to the receiver  []
 	pathSpec["py|Set.inPlace"] = []string{
-		"[!(res.(*Set)) && err == nil]  -> res, nil",
-		"[err != nil]  -> nil, err!",
-		"[err == nil && res.(*Set)] s.items = res.items -> s, nil",
+		"[!(p1.(*Set)) && p2 == nil]  -> p1, nil",
+		"[p1.(*Set) && p2 == nil] recv.items = p1.items -> s, nil",
+		"[p2 != nil]  -> nil, err!",
 	}
 	// sort comparison: items fetched, key function applied to both, then a strict less-than with the operands exchanged for reverse (not the result inverted, which is not a strict order and breaks stability)  []
 	pathSpec["py|ptrSortable.Less"] = []string{
-		"[!(cmpResult.(Bool)) && !(s.s.reverse) && err == nil && s.s.keyFunc != None] s.s.l.M__getitem__(i); s.s.l.M__getitem__(j); Call(s.s.keyFunc, composite[(*py.List).M__getitem__#0], nil); Call(s.s.keyFunc, composite[(*py.List).M__getitem__#0'2], nil); Lt(py.Call#0, py.Call#0'2) -> false",
-		"[!(cmpResult.(Bool)) && !(s.s.reverse) && err == nil && s.s.keyFunc == None] s.s.l.M__getitem__(i); s.s.l.M__getitem__(j); Lt((*py.List).M__getitem__#0, (*py.List).M__getitem__#0'2) -> false",
-		"[!(cmpResult.(Bool)) && err == nil && s.s.keyFunc != None && s.s.reverse] s.s.l.M__getitem__(i); s.s.l.M__getitem__(j); Call(s.s.keyFunc, composite[(*py.List).M__getitem__#0], nil); Call(s.s.keyFunc, composite[(*py.List).M__getitem__#0'2], nil); Lt(py.Call#0'2, py.Call#0) -> false",
-		"[!(cmpResult.(Bool)) && err == nil && s.s.keyFunc == None && s.s.reverse] s.s.l.M__getitem__(i); s.s.l.M__getitem__(j); Lt((*py.List).M__getitem__#0'2, (*py.List).M__getitem__#0) -> false",
-		"[!(s.s.reverse) && cmpResult.(Bool) && err == nil && s.s.keyFunc != None] s.s.l.M__getitem__(i); s.s.l.M__getitem__(j); Call(s.s.keyFunc, composite[(*py.List).M__getitem__#0], nil); Call(s.s.keyFunc, composite[(*py.List).M__getitem__#0'2], nil); Lt(py.Call#0, py.Call#0'2) -> py.Lt#0",
-		"[!(s.s.reverse) && cmpResult.(Bool) && err == nil && s.s.keyFunc == None] s.s.l.M__getitem__(i); s.s.l.M__getitem__(j); Lt((*py.List).M__getitem__#0, (*py.List).M__getitem__#0'2) -> py.Lt#0",
-		"[!(s.s.reverse) && err == nil && s.s.firstErr != nil && s.s.keyFunc != None] s.s.l.M__getitem__(i); s.s.l.M__getitem__(j); Call(s.s.keyFunc, composite[(*py.List).M__getitem__#0], nil); Call(s.s.keyFunc, composite[(*py.List).M__getitem__#0'2], nil); Lt(py.Call#0, py.Call#0'2) -> false",
-		"[!(s.s.reverse) && err == nil && s.s.firstErr != nil && s.s.keyFunc == None] s.s.l.M__getitem__(i); s.s.l.M__getitem__(j); Lt((*py.List).M__getitem__#0, (*py.List).M__getitem__#0'2) -> false",
-		"[!(s.s.reverse) && err == nil && s.s.firstErr == nil && s.s.keyFunc != None] s.s.l.M__getitem__(i); s.s.l.M__getitem__(j); Call(s.s.keyFunc, composite[(*py.List).M__getitem__#0], nil); Call(s.s.keyFunc, composite[(*py.List).M__getitem__#0'2], nil); Lt(py.Call#0, py.Call#0'2); s.s.firstErr = err! -> false",
-		"[!(s.s.reverse) && err == nil && s.s.firstErr == nil && s.s.keyFunc == None] s.s.l.M__getitem__(i); s.s.l.M__getitem__(j); Lt((*py.List).M__getitem__#0, (*py.List).M__getitem__#0'2); s.s.firstErr = err! -> false",
-		"[cmpResult.(Bool) && err == nil && s.s.keyFunc != None && s.s.reverse] s.s.l.M__getitem__(i); s.s.l.M__getitem__(j); Call(s.s.keyFunc, composite[(*py.List).M__getitem__#0], nil); Call(s.s.keyFunc, composite[(*py.List).M__getitem__#0'2], nil); Lt(py.Call#0'2, py.Call#0) -> py.Lt#0",
-		"[cmpResult.(Bool) && err == nil && s.s.keyFunc == None && s.s.reverse] s.s.l.M__getitem__(i); s.s.l.M__getitem__(j); Lt((*py.List).M__getitem__#0'2, (*py.List).M__getitem__#0) -> py.Lt#0",
-		"[err != nil && s.s.firstErr != nil] s.s.l.M__getitem__(i) -> false",
-		"[err != nil && s.s.firstErr == nil] s.s.l.M__getitem__(i); s.s.firstErr = err! -> false",
-		"[err == nil && s.s.firstErr != nil && s.s.keyFunc != None && s.s.reverse] s.s.l.M__getitem__(i); s.s.l.M__getitem__(j); Call(s.s.keyFunc, composite[(*py.List).M__getitem__#0], nil); Call(s.s.keyFunc, composite[(*py.List).M__getitem__#0'2], nil); Lt(py.Call#0'2, py.Call#0) -> false",
-		"[err == nil && s.s.firstErr != nil && s.s.keyFunc != None] s.s.l.M__getitem__(i); s.s.l.M__getitem__(j); Call(s.s.keyFunc, composite[(*py.List).M__getitem__#0], nil) -> false",
-		"[err == nil && s.s.firstErr != nil && s.s.keyFunc != None] s.s.l.M__getitem__(i); s.s.l.M__getitem__(j); Call(s.s.keyFunc, composite[(*py.List).M__getitem__#0], nil); Call(s.s.keyFunc, composite[(*py.List).M__getitem__#0'2], nil) -> false",
-		"[err == nil && s.s.firstErr != nil && s.s.keyFunc == None && s.s.reverse] s.s.l.M__getitem__(i); s.s.l.M__getitem__(j); Lt((*py.List).M__getitem__#0'2, (*py.List).M__getitem__#0) -> false",
-		"[err == nil && s.s.firstErr != nil] s.s.l.M__getitem__(i); s.s.l.M__getitem__(j) -> false",
-		"[err == nil && s.s.firstErr == nil && s.s.keyFunc != None && s.s.reverse] s.s.l.M__getitem__(i); s.s.l.M__getitem__(j); Call(s.s.keyFunc, composite[(*py.List).M__getitem__#0], nil); Call(s.s.keyFunc, composite[(*py.List).M__getitem__#0'2], nil); Lt(py.Call#0'2, py.Call#0); s.s.firstErr = err! -> false",
-		"[err == nil && s.s.firstErr == nil && s.s.keyFunc != None] s.s.l.M__getitem__(i); s.s.l.M__getitem__(j); Call(s.s.keyFunc, composite[(*py.List).M__getitem__#0], nil); Call(s.s.keyFunc, composite[(*py.List).M__getitem__#0'2], nil); s.s.firstErr = err! -> false",
-		"[err == nil && s.s.firstErr == nil && s.s.keyFunc != None] s.s.l.M__getitem__(i); s.s.l.M__getitem__(j); Call(s.s.keyFunc, composite[(*py.List).M__getitem__#0], nil); s.s.firstErr = err! -> false",
-		"[err == nil && s.s.firstErr == nil && s.s.keyFunc == None && s.s.reverse] s.s.l.M__getitem__(i); s.s.l.M__getitem__(j); Lt((*py.List).M__getitem__#0'2, (*py.List).M__getitem__#0); s.s.firstErr = err! -> false",
-		"[err == nil && s.s.firstErr == nil] s.s.l.M__getitem__(i); s.s.l.M__getitem__(j); s.s.firstErr = err! -> false",
+		"[!(cmpResult.(Bool)) && !(recv.recv.reverse) && err == nil && recv.recv.keyFunc != None] s.s.l.M__getitem__(p1); s.s.l.M__getitem__(p2); Call(s.s.keyFunc, composite[(*py.List).M__getitem__#0], nil); Call(s.s.keyFunc, composite[(*py.List).M__getitem__#0'2], nil); Lt(py.Call#0, py.Call#0'2) -> false",
+		"[!(cmpResult.(Bool)) && !(recv.recv.reverse) && err == nil && recv.recv.keyFunc == None] s.s.l.M__getitem__(p1); s.s.l.M__getitem__(p2); Lt((*py.List).M__getitem__#0, (*py.List).M__getitem__#0'2) -> false",
+		"[!(cmpResult.(Bool)) && err == nil && recv.recv.keyFunc != None && recv.recv.reverse] s.s.l.M__getitem__(p1); s.s.l.M__getitem__(p2); Call(s.s.keyFunc, composite[(*py.List).M__getitem__#0], nil); Call(s.s.keyFunc, composite[(*py.List).M__getitem__#0'2], nil); Lt(py.Call#0'2, py.Call#0) -> false",
+		"[!(cmpResult.(Bool)) && err == nil && recv.recv.keyFunc == None && recv.recv.reverse] s.s.l.M__getitem__(p1); s.s.l.M__getitem__(p2); Lt((*py.List).M__getitem__#0'2, (*py.List).M__getitem__#0) -> false",
+		"[!(recv.recv.reverse) && cmpResult.(Bool) && err == nil && recv.recv.keyFunc != None] s.s.l.M__getitem__(p1); s.s.l.M__getitem__(p2); Call(s.s.keyFunc, composite[(*py.List).M__getitem__#0], nil); Call(s.s.keyFunc, composite[(*py.List).M__getitem__#0'2], nil); Lt(py.Call#0, py.Call#0'2) -> py.Lt#0",
+		"[!(recv.recv.reverse) && cmpResult.(Bool) && err == nil && recv.recv.keyFunc == None] s.s.l.M__getitem__(p1); s.s.l.M__getitem__(p2); Lt((*py.List).M__getitem__#0, (*py.List).M__getitem__#0'2) -> py.Lt#0",
+		"[!(recv.recv.reverse) && err == nil && recv.recv.firstErr != nil && recv.recv.keyFunc != None] s.s.l.M__getitem__(p1); s.s.l.M__getitem__(p2); Call(s.s.keyFunc, composite[(*py.List).M__getitem__#0], nil); Call(s.s.keyFunc, composite[(*py.List).M__getitem__#0'2], nil); Lt(py.Call#0, py.Call#0'2) -> false",
+		"[!(recv.recv.reverse) && err == nil && recv.recv.firstErr != nil && recv.recv.keyFunc == None] s.s.l.M__getitem__(p1); s.s.l.M__getitem__(p2); Lt((*py.List).M__getitem__#0, (*py.List).M__getitem__#0'2) -> false",
+		"[!(recv.recv.reverse) && err == nil && recv.recv.firstErr == nil && recv.recv.keyFunc != None] s.s.l.M__getitem__(p1); s.s.l.M__getitem__(p2); Call(s.s.keyFunc, composite[(*py.List).M__getitem__#0], nil); Call(s.s.keyFunc, composite[(*py.List).M__getitem__#0'2], nil); Lt(py.Call#0, py.Call#0'2); recv.recv.firstErr = err! -> false",
+		"[!(recv.recv.reverse) && err == nil && recv.recv.firstErr == nil && recv.recv.keyFunc == None] s.s.l.M__getitem__(p1); s.s.l.M__getitem__(p2); Lt((*py.List).M__getitem__#0, (*py.List).M__getitem__#0'2); recv.recv.firstErr = err! -> false",
+		"[cmpResult.(Bool) && err == nil && recv.recv.keyFunc != None && recv.recv.reverse] s.s.l.M__getitem__(p1); s.s.l.M__getitem__(p2); Call(s.s.keyFunc, composite[(*py.List).M__getitem__#0], nil); Call(s.s.keyFunc, composite[(*py.List).M__getitem__#0'2], nil); Lt(py.Call#0'2, py.Call#0) -> py.Lt#0",
+		"[cmpResult.(Bool) && err == nil && recv.recv.keyFunc == None && recv.recv.reverse] s.s.l.M__getitem__(p1); s.s.l.M__getitem__(p2); Lt((*py.List).M__getitem__#0'2, (*py.List).M__getitem__#0) -> py.Lt#0",
+		"[err != nil && recv.recv.firstErr != nil] s.s.l.M__getitem__(p1) -> false",
+		"[err != nil && recv.recv.firstErr == nil] s.s.l.M__getitem__(p1); recv.recv.firstErr = err! -> false",
+		"[err == nil && recv.recv.firstErr != nil && recv.recv.keyFunc != None && recv.recv.reverse] s.s.l.M__getitem__(p1); s.s.l.M__getitem__(p2); Call(s.s.keyFunc, composite[(*py.List).M__getitem__#0], nil); Call(s.s.keyFunc, composite[(*py.List).M__getitem__#0'2], nil); Lt(py.Call#0'2, py.Call#0) -> false",
+		"[err == nil && recv.recv.firstErr != nil && recv.recv.keyFunc != None] s.s.l.M__getitem__(p1); s.s.l.M__getitem__(p2); Call(s.s.keyFunc, composite[(*py.List).M__getitem__#0], nil) -> false",
+		"[err == nil && recv.recv.firstErr != nil && recv.recv.keyFunc != None] s.s.l.M__getitem__(p1); s.s.l.M__getitem__(p2); Call(s.s.keyFunc, composite[(*py.List).M__getitem__#0], nil); Call(s.s.keyFunc, composite[(*py.List).M__getitem__#0'2], nil) -> false",
+		"[err == nil && recv.recv.firstErr != nil && recv.recv.keyFunc == None && recv.recv.reverse] s.s.l.M__getitem__(p1); s.s.l.M__getitem__(p2); Lt((*py.List).M__getitem__#0'2, (*py.List).M__getitem__#0) -> false",
+		"[err == nil && recv.recv.firstErr != nil] s.s.l.M__getitem__(p1); s.s.l.M__getitem__(p2) -> false",
+		"[err == nil && recv.recv.firstErr == nil && recv.recv.keyFunc != None && recv.recv.reverse] s.s.l.M__getitem__(p1); s.s.l.M__getitem__(p2); Call(s.s.keyFunc, composite[(*py.List).M__getitem__#0], nil); Call(s.s.keyFunc, composite[(*py.List).M__getitem__#0'2], nil); Lt(py.Call#0'2, py.Call#0); recv.recv.firstErr = err! -> false",
+		"[err == nil && recv.recv.firstErr == nil && recv.recv.keyFunc != None] s.s.l.M__getitem__(p1); s.s.l.M__getitem__(p2); Call(s.s.keyFunc, composite[(*py.List).M__getitem__#0], nil); Call(s.s.keyFunc, composite[(*py.List).M__getitem__#0'2], nil); recv.recv.firstErr = err! -> false",
+		"[err == nil && recv.recv.firstErr == nil && recv.recv.keyFunc != None] s.s.l.M__getitem__(p1); s.s.l.M__getitem__(p2); Call(s.s.keyFunc, composite[(*py.List).M__getitem__#0], nil); recv.recv.firstErr = err! -> false",
+		"[err == nil && recv.recv.firstErr == nil && recv.recv.keyFunc == None && recv.recv.reverse] s.s.l.M__getitem__(p1); s.s.l.M__getitem__(p2); Lt((*py.List).M__getitem__#0'2, (*py.List).M__getitem__#0); recv.recv.firstErr = err! -> false",
+		"[err == nil && recv.recv.firstErr == nil] s.s.l.M__getitem__(p1); s.s.l.M__getitem__(p2); recv.recv.firstErr = err! -> false",
 	}
 }
